@@ -1,9 +1,41 @@
 import Isotp.PyAgree.LayerSend
 import Isotp.PyAgree.LayerTxHelpers
 import Isotp.PyAgree.Threaded
-import Isotp.PyAgree.LayerWhole
+import Isotp.PyAgree.LayerRx
+import Isotp.PyAgree.LayerTx
 /-!
-  Source agreement for the CONSTRUCTORS (namespace `Isotp.PyAgree.Init`).
+  Source agreement for the CONSTRUCTORS (namespace `Isotp.PyAgree.Init`): the interpreted sources
+
+  * 1. `Src.TransportLayerLogic_init__state_init` (the 23 statements of `TransportLayerLogic.__init__` from `self.txfn = txfn` to
+       `self.actual_rxdl = None`)                                  = the receive / transmit fields of `State.init c a` (Layer.lean)
+  * 2. `Src.TransportLayerLogic_SendRequest_init`                  = the model's `Req` construction (`Send.newReq`, `State.send`)
+  * 3. `Src.TransportLayer_init`                                   = `TL.init` (Threaded.lean)
+  * 4. `Src.Timer_init` + `Src.Timer_set_timeout`, `Src.RateLimiter_init` (with `can_be_enabled`, `enable`, `reset` from their sources)
+                                                                   = the model's `Timer` `{ timeout := n }` / `Limiter` `{ enabled := can }`
+
+  MAIN THEOREMS
+  * `state_init_agrees (arg) (conv) (tx eh) (env) (hA : InitArgs tx eh env)`: the region ends in `initEnv tx eh env` when `set_address`
+    accepts the address, raises `ValueError` otherwise (`setAddrSpec arg`); `initEnv_lookups` (every created attribute = the field of
+    `State.init c a`), `initEnv_frame` (nothing else is written: `remote_blocksize` keeps the `None` it got before the region,
+    `pending_flowcontrol_status` is NOT created - the model's `pendingFcStatus := none`).
+  * `init_presents_State_init`: the region followed by `load_params` (`load_params_agrees`, LayerSend.lean) yields an object whose flat
+    view `present conv` satisfies `Tx.Rep _ (State.init c a)`, `Rx.Rep (State.init c a) _`, `Rx.Consts`, an empty `#tx_queue` and
+    `RxBufOk`: the hypotheses of `process_rx_agrees` / `process_tx_agrees`; LayerInitWhole.lean regroups them into LayerWhole's `RW`
+    (hypothesis of `process_whole_total`).
+  * `send_request_init_agrees` (+ `_tuple`, `_bytes`, `_other`), `send_request_init_bytes_is_newReq`, `send_request_init_tuple_is_newReq`.
+  * `transport_layer_init_agrees`, `transport_layer_init_calls_once`, `transport_layer_init_shows` (`Thr.ShowsW _ (TL.init c a)`).
+  * `timer_set_timeout_agrees`, `timer_init_agrees`, `timer_init_model`, `timer_init_zero`; `ratelimiter_init_agrees`,
+    `ratelimiter_fresh_then_enable`, `ratelimiter_fresh_then_disable`.
+  `FiniteByteGenerator.__init__` is `fbg_init_agrees` (LayerSend.lean, section E): used here, not duplicated.
+
+  FINDINGS: no field of `State.init` disagrees with the constructor.  Remarks:
+  (a) `RateLimiter.__init__` ENABLES the limiter whenever it can be enabled, whatever `rate_limit_enable` says; `load_params` corrects
+      the flag right away (`enable()` / `disable()`), so `State.init`'s `rl := { enabled := c.rlEnable }` is right for the constructed
+      layer, but a bare `RateLimiter(b, w)` is `{ enabled := true }`, not `{}` (section 4b).
+  (b) the source-only attributes `last_rx_state`, `last_tx_state` (logging), `txfn`, `error_handler`, `address` have no model field.
+  (c) float arithmetic: `int(timeout * 1e9)` (`Timer.set_timeout`) is outside the interpreter's integer arithmetic; it enters as the
+      explicit parameter `conv` (section 4a) and the two hypotheses `hfc`, `hcf` of `init_presents_State_init` (DESIGN 3.1).
+      `RateLimiter.reset` multiplies with the interpreter's INTEGER `*`: section 4b is for integer-valued factors (as LayerTxHelpers.lean).
 -/
 set_option linter.unusedSimpArgs false
 set_option linter.unusedVariables false
@@ -43,6 +75,10 @@ theorem exec_assign_err (M : Meths) (env : Env) (k : String) (e : PExpr) (x : PE
 
 theorem eval_var (M : Meths) (env : Env) (k : String) (v : PV) (h : env k = some v) : eval M env (.var k) = .ok v := by
   simp [eval, h]
+
+theorem eval_cmp (M : Meths) (env : Env) (op : CmpOp) (a b : PExpr) (x y : PV) (ha : eval M env a = .ok x)
+    (hb : eval M env b = .ok y) : eval M env (.cmp op a b) = evalCmp op x y := by
+  simp [eval, ha, hb]
 
 theorem args1 (M : Meths) (env : Env) (a : PExpr) (v : PV) (h : eval M env a = .ok v) :
     evalArgs M env (.cons a .nil) = .ok [v] := by simp [evalArgs, h]
@@ -94,6 +130,13 @@ theorem setTimeoutM_mul (conv : Int → Nat → Int) (v : PV) (env : Env) :
 theorem builtin_int_pint (i : Int) : evalBuiltin "int" [pint i] = some (.ok (pint i)) := by
   simp [evalBuiltin, asInt, Sc.isInt, Sc.intVal, PyVal.isInt, PyVal.intVal]
 
+theorem eval_int (M : Meths) (env : Env) (e : PExpr) (i : Int) (h : eval M env e = .ok (pint i)) :
+    eval M env (.call "int" (.cons e .nil)) = .ok (pint i) := by
+  simp [eval, evalArgs, h, builtin_int_pint]
+theorem eval_int_err (M : Meths) (env : Env) (e : PExpr) (x : PErr) (h : eval M env e = .error x) :
+    eval M env (.call "int" (.cons e .nil)) = .error x := by
+  simp [eval, evalArgs, h]
+
 /-- the product `timeout * 1e9` -/
 theorem eval_mul_1e9 (conv : Int → Nat → Int) (env : Env) (tv : PV) (h : env "timeout" = some tv) :
     eval (setTimeoutM conv) env
@@ -117,16 +160,16 @@ theorem timer_set_timeout_agrees (conv : Int → Nat → Int) (env : Env) (tv : 
   | none =>
     rw [hn] at hm
     have : eval (setTimeoutM conv) env (.call "int" (.cons (.call "__mul__" (.cons (.var "timeout")
-        (.cons (.call "__float__" (.cons (.strLit "1000000000.0") .nil)) .nil))) .nil)) = .error (.exc .TypeError) := by
-      simp [eval, evalArgs, hm]
+        (.cons (.call "__float__" (.cons (.strLit "1000000000.0") .nil)) .nil))) .nil)) = .error (.exc .TypeError) :=
+      eval_int_err _ _ _ _ hm
     apply runFn_err
     show execBlock _ env (drop Src.Timer_set_timeout 0) = _
     exact step_err rfl (exec_assign_err _ _ _ _ _ this)
   | some i =>
     rw [hn] at hm
     have : eval (setTimeoutM conv) env (.call "int" (.cons (.call "__mul__" (.cons (.var "timeout")
-        (.cons (.call "__float__" (.cons (.strLit "1000000000.0") .nil)) .nil))) .nil)) = .ok (pint i) := by
-      simp [eval, evalArgs, hm, builtin_int_pint]
+        (.cons (.call "__float__" (.cons (.strLit "1000000000.0") .nil)) .nil))) .nil)) = .ok (pint i) :=
+      eval_int _ _ _ _ hm
     apply runFn_next
     show execBlock _ env (drop Src.Timer_set_timeout 0) = _
     rw [step_next rfl (exec_assign _ _ _ _ _ this)]
@@ -195,7 +238,7 @@ theorem timer_init_zero (conv : Int → Nat → Int) (env : Env) (h : env "timeo
     runFn (timerInitM conv) env Src.Timer_init = .ok (pnone, timerInitEnv 0 env) ∧
     timerInitEnv 0 env "self.start_time" = some (optPV ({} : Timer).start) ∧
     timerInitEnv 0 env "self.timeout" = some (pint ({} : Timer).timeout) := by
-  refine ⟨by rw [timer_init_agrees conv env _ h]; rfl, by simp [timerInitEnv, set_get]; rfl, by simp [timerInitEnv, set_get]; rfl⟩
+  refine ⟨by rw [timer_init_agrees conv env _ h]; rfl, by simp [timerInitEnv, set_get] <;> rfl, by simp [timerInitEnv, set_get] <;> rfl⟩
 
 /-- a whole number of seconds -/
 theorem nsOf_int (conv : Int → Nat → Int) (k : Nat) : nsOf conv (pint k) = some ((k * 1000000000 : Nat) : Int) := by
@@ -230,4 +273,1363 @@ example : nsOf (fun n d => n * 1000000000 / d) (pint 0) = some 0 := rfl
 example : timerNew (fun n d => n * 1000000000 / d) (.sc (.py (.float 1000 1000))) = .ok (.list [.py .none, .py (.int 1000000000)]) := by
   rw [timerNew_eq]; rfl
 
+
+/-! ## 4b. `RateLimiter.__init__` (isotp/protocol.py)
+
+  ```
+  self.enabled = False; self.mean_bitrate = mean_bitrate; self.window_size_sec = window_size_sec; self.error_reason = ''
+  self.reset()
+  if self.can_be_enabled(): self.enable()
+  ```
+  All three callees are INTERPRETED FROM THEIR SOURCES (`Src.RateLimiter_reset`, `Src.RateLimiter_can_be_enabled`, `Src.RateLimiter_enable`,
+  whose own callees `reset` / `can_be_enabled` are again their sources); the only primitive is `float(x)`, numerically `x` (as in
+  LayerTxHelpers.lean).  As there (`ratelimiter_reset_float_outside_subset`), `reset` multiplies the two factors with the interpreter's
+  INTEGER `*`, so the statement is for integer-valued factors `b`, `w`, shown as `int`s.
+
+  NOTE (not a disagreement with `State.init`): the constructor ENABLES the limiter whenever it can be enabled (`b > 0` and `w > 0`),
+  whatever `rate_limit_enable` says: the fresh object is the model's `{}` only when it cannot be enabled, and `{ enabled := true }`
+  otherwise (no bursts, `bit_total = 0` in both cases).  `load_params` calls `enable()` / `disable()` right after the construction, which
+  is what makes the flag `cfg.rlEnable` as in `State.init` (`ratelimiter_fresh_then_disable` / `_enable`).
+  `can_be_enabled()` is called in expression position: its assignments to `self.error_reason` (a message for the `ValueError` of
+  `enable`) are not propagated by the interpreter's `Meths.fn`; no other method reads that attribute. -/
+
+/-- `float(x)` of a number: numerically `x`, in expression and in statement position (`try: float(x)`) -/
+def floatM : Meths where
+  fn := fun name args _ =>
+    match name, args with
+    | "float", [.sc (.py v)] => if isNumber v then .ok (.sc (.py v)) else .error (.exc .TypeError)
+    | n, _ => .error (.unsupported ("call " ++ n))
+  proc := fun name args env =>
+    match name, args with
+    | "float", [.sc (.py v)] => if isNumber v then .ok env else .error (.exc .TypeError)
+    | n, _ => .error (.unsupported ("call " ++ n))
+
+/-- **`RateLimiter.can_be_enabled()`** on integer-valued factors: both positive -/
+theorem can_be_enabled_run (env : Env) (b w : Int) (h1 : env "self.mean_bitrate" = some (pint b))
+    (h2 : env "self.window_size_sec" = some (pint w)) :
+    retM floatM env Src.RateLimiter_can_be_enabled = .ok (pbool (decide (0 < b) && decide (0 < w))) := by
+  have hp : ∀ (i : Int) e, floatM.proc "float" [pint i] e = .ok e := fun _ _ => rfl
+  have hf : ∀ (i : Int) e, floatM.fn "float" [pint i] e = .ok (pint i) := fun _ _ => rfl
+  by_cases hb : b ≤ 0 <;> by_cases hw : w ≤ 0 <;>
+  simp [retM, runFn, Src.RateLimiter_can_be_enabled, execBlock, execStmt, eval, evalArgs, h1, h2,
+    evalBuiltin_none "float" _ (by decide), hp, hf, evalCmp_le_pint, hb, hw, set_get] <;> omega
+
+/-- the callees of `enable`: `can_be_enabled` and `reset` from their sources -/
+def rlM : Meths where
+  fn := fun name args env =>
+    match name, args with
+    | "float", [.sc (.py v)] => if isNumber v then .ok (.sc (.py v)) else .error (.exc .TypeError)
+    | "self.can_be_enabled", [] => retM floatM env Src.RateLimiter_can_be_enabled
+    | n, _ => .error (.unsupported ("call " ++ n))
+  proc := fun name args env =>
+    match name, args with
+    | "self.reset", [] => envM noMeths env Src.RateLimiter_reset
+    | n, _ => .error (.unsupported ("call " ++ n))
+
+/-- the callees of `__init__`: the same, and `enable` from its source -/
+def rlInitM : Meths where
+  fn := rlM.fn
+  proc := fun name args env =>
+    match name, args with
+    | "self.reset", [] => envM noMeths env Src.RateLimiter_reset
+    | "self.enable", [] => envM rlM env Src.RateLimiter_enable
+    | n, _ => .error (.unsupported ("call " ++ n))
+
+theorem rlM_can (env : Env) : rlM.fn "self.can_be_enabled" [] env = retM floatM env Src.RateLimiter_can_be_enabled := rfl
+theorem rlM_float (i : Int) (env : Env) : rlM.fn "float" [pint i] env = .ok (pint i) := rfl
+theorem rlM_reset (env : Env) : rlM.proc "self.reset" [] env = envM noMeths env Src.RateLimiter_reset := rfl
+theorem rlInitM_reset (env : Env) : rlInitM.proc "self.reset" [] env = envM noMeths env Src.RateLimiter_reset := rfl
+theorem rlInitM_enable (env : Env) : rlInitM.proc "self.enable" [] env = envM rlM env Src.RateLimiter_enable := rfl
+theorem rlInitM_can (env : Env) : rlInitM.fn "self.can_be_enabled" [] env = retM floatM env Src.RateLimiter_can_be_enabled := rfl
+
+/-- `reset()` on integer factors -/
+theorem reset_run (env : Env) (b w : Nat) (h1 : env "self.mean_bitrate" = some (pint b))
+    (h2 : env "self.window_size_sec" = some (pint w)) :
+    envM noMeths env Src.RateLimiter_reset = .ok (limResetEnv env (pint ((b * w : Nat) : Int))) := by
+  rw [envM, ratelimiter_reset_run noMeths env _ _ h1 h2, evalBinop_mul, Int.natCast_mul]; rfl
+
+/-- what `enable()` leaves when it succeeds -/
+def enableEnv (b w : Nat) (env : Env) : Env :=
+  limResetEnv (((env.set "self.mean_bitrate" (pint b)).set "self.window_size_sec" (pint w)).set "self.enabled" (pbool true))
+    (pint ((b * w : Nat) : Int))
+
+/-- **`enable()`** with `can_be_enabled` and `reset` interpreted from their sources (integer factors) -/
+theorem enable_run (env : Env) (b w : Nat) (h1 : env "self.mean_bitrate" = some (pint b))
+    (h2 : env "self.window_size_sec" = some (pint w)) :
+    envM rlM env Src.RateLimiter_enable =
+      if 0 < b ∧ 0 < w then .ok (enableEnv b w env) else .error (.exc .ValueError) := by
+  have hc : rlM.fn "self.can_be_enabled" [] env = .ok (pbool (decide (0 < b ∧ 0 < w))) := by
+    rw [rlM_can, can_be_enabled_run env b w h1 h2]
+    congr 2
+    by_cases hb : 0 < b <;> by_cases hw : 0 < w <;> simp [hb, hw] <;> omega
+  by_cases hcan : 0 < b ∧ 0 < w
+  · have hp : rlM.proc "self.reset" []
+        (((env.set "self.mean_bitrate" (pint b)).set "self.window_size_sec" (pint w)).set "self.enabled" (pbool true)) =
+        .ok (enableEnv b w env) := by
+      rw [rlM_reset, reset_run _ b w (by simp [set_get]) (by simp [set_get])]; rfl
+    simp [envM, runFn, Src.RateLimiter_enable, execBlock, execStmt, eval, evalArgs, set_get, h1, h2, hc, rlM_float, hcan,
+      evalBuiltin_none "self.can_be_enabled" _ (by decide), evalBuiltin_none "float" _ (by decide),
+      evalBuiltin_none "self.reset" _ (by decide), hp]
+  · simp [envM, runFn, Src.RateLimiter_enable, execBlock, execStmt, eval, evalArgs, hc, hcan,
+      evalBuiltin_none "self.can_be_enabled" _ (by decide)]
+
+/-- what `RateLimiter.__init__` leaves -/
+def rlInitEnv (b w : Nat) (env : Env) : Env :=
+  let e4 := (((env.set "self.enabled" (pbool false)).set "self.mean_bitrate" (pint b)).set "self.window_size_sec" (pint w)).set
+    "self.error_reason" (.str "")
+  let e5 := limResetEnv e4 (pint ((b * w : Nat) : Int))
+  if 0 < b ∧ 0 < w then enableEnv b w e5 else e5
+
+/-- the keys `RateLimiter.__init__` writes -/
+def rlInitKeys : List String :=
+  ["self.enabled", "self.mean_bitrate", "self.window_size_sec", "self.error_reason", "self.burst_bitcount", "self.burst_time",
+   "self.bit_total", "self.window_bit_max"]
+
+/-- **`RateLimiter.__init__(mean_bitrate, window_size_sec)`** (integer-valued factors), callees interpreted from their sources: it never
+    raises; the new object shows the model's limiter `{ enabled := can }` - no bursts, `bit_total = 0`, `window_bit_max = b * w` -,
+    enabled exactly when it can be (both factors positive) -/
+theorem ratelimiter_init_agrees (env : Env) (b w : Nat) (h1 : env "mean_bitrate" = some (pint b))
+    (h2 : env "window_size_sec" = some (pint w)) :
+    runFn rlInitM env Src.RateLimiter_init = .ok (pnone, rlInitEnv b w env) ∧
+    Has (rlInitEnv b w env) (limAttrs { enabled := decide (0 < b ∧ 0 < w) } (b * w)) ∧
+    rlInitEnv b w env "self.mean_bitrate" = some (pint b) ∧ rlInitEnv b w env "self.window_size_sec" = some (pint w) ∧
+    ∀ k, k ∉ rlInitKeys → rlInitEnv b w env k = env k := by
+  refine ⟨?_, ?_, ?_, ?_, ?_⟩
+  · let e1 := env.set "self.enabled" (pbool false)
+    let e2 := e1.set "self.mean_bitrate" (pint b)
+    let e3 := e2.set "self.window_size_sec" (pint w)
+    let e4 := e3.set "self.error_reason" (.str "")
+    let e5 := limResetEnv e4 (pint ((b * w : Nat) : Int))
+    have m5 : e5 "self.mean_bitrate" = some (pint b) := by simp [e5, e4, e3, e2, limResetEnv, set_get]
+    have w5 : e5 "self.window_size_sec" = some (pint w) := by simp [e5, e4, e3, e2, limResetEnv, set_get]
+    have s0 : execStmt rlInitM env (nth Src.RateLimiter_init 0) = .ok (.next e1) := exec_assign _ _ _ _ _ (by simp [eval])
+    have s1 : execStmt rlInitM e1 (nth Src.RateLimiter_init 1) = .ok (.next e2) :=
+      exec_assign _ _ _ _ _ (eval_var _ _ _ _ (by simp [e1, set_get, h1]))
+    have s2 : execStmt rlInitM e2 (nth Src.RateLimiter_init 2) = .ok (.next e3) :=
+      exec_assign _ _ _ _ _ (eval_var _ _ _ _ (by simp [e2, e1, set_get, h2]))
+    have s3 : execStmt rlInitM e3 (nth Src.RateLimiter_init 3) = .ok (.next e4) := exec_assign _ _ _ _ _ (by simp [eval])
+    have s4 : execStmt rlInitM e4 (nth Src.RateLimiter_init 4) = .ok (.next e5) :=
+      exec_proc _ _ _ "self.reset" _ [] (by decide) rfl
+        (by rw [rlInitM_reset, reset_run e4 b w (by simp [e4, e3, e2, set_get]) (by simp [e4, e3, set_get])])
+    have hc : eval rlInitM e5 (.call "self.can_be_enabled" .nil) = .ok (pbool (decide (0 < b ∧ 0 < w))) := by
+      rw [eval_call _ _ "self.can_be_enabled" _ [] (by decide) rfl, rlInitM_can, can_be_enabled_run e5 b w m5 w5]
+      congr 2
+      by_cases hb : 0 < b <;> by_cases hw : 0 < w <;> simp [hb, hw] <;> omega
+    have s5 : execStmt rlInitM e5 (nth Src.RateLimiter_init 5) = .ok (.next (rlInitEnv b w env)) := by
+      have he := enable_run e5 b w m5 w5
+      show execStmt rlInitM e5 (.ite (.call "self.can_be_enabled" .nil) (.cons (.expr (.call "self.enable" .nil)) .nil) .nil) = _
+      rw [Thr.exec_ite _ _ _ _ _ _ hc]
+      by_cases hcan : 0 < b ∧ 0 < w
+      · rw [if_pos hcan] at he
+        have hs : execStmt rlInitM e5 (.expr (.call "self.enable" .nil)) = .ok (.next (enableEnv b w e5)) :=
+          exec_proc _ _ _ "self.enable" _ [] (by decide) rfl (by rw [rlInitM_enable, he])
+        have : rlInitEnv b w env = enableEnv b w e5 := by simp only [rlInitEnv, if_pos hcan]; rfl
+        rw [if_pos (decide_eq_true hcan), this]
+        simp only [execBlock, hs, ok_bind]
+      · have : rlInitEnv b w env = e5 := by simp only [rlInitEnv, if_neg hcan]; rfl
+        rw [if_neg (by simpa using hcan), this]
+        rfl
+    apply runFn_next
+    show execBlock _ env (drop Src.RateLimiter_init 0) = _
+    rw [step_next rfl s0, step_next rfl s1, step_next rfl s2, step_next rfl s3, step_next rfl s4, step_next rfl s5]
+    rfl
+  · by_cases hcan : 0 < b ∧ 0 < w <;>
+    simp [Has, limAttrs, rlInitEnv, enableEnv, limResetEnv, set_get, hcan]
+  · by_cases hcan : 0 < b ∧ 0 < w <;> simp [rlInitEnv, enableEnv, limResetEnv, set_get, hcan]
+  · by_cases hcan : 0 < b ∧ 0 < w <;> simp [rlInitEnv, enableEnv, limResetEnv, set_get, hcan]
+  · intro k hk
+    simp only [rlInitKeys, List.mem_cons, List.not_mem_nil, or_false, not_or] at hk
+    by_cases hcan : 0 < b ∧ 0 < w <;> simp [rlInitEnv, enableEnv, limResetEnv, set_get, hcan, hk]
+
+/-- the fresh limiter in the model's terms: `{}` when it cannot be enabled -/
+theorem ratelimiter_init_default (env : Env) (b w : Nat) (hcan : ¬ (0 < b ∧ 0 < w)) :
+    Has (rlInitEnv b w env) (limAttrs ({} : Limiter) (b * w)) := by
+  simp [Has, limAttrs, rlInitEnv, limResetEnv, set_get, hcan]
+
+/-- ... and then `disable()` / `enable()` (what `load_params` does next, from the sources): the model's `{ enabled := flag }`,
+    as in `State.init` (`rl := { enabled := c.rlEnable }`) -/
+theorem ratelimiter_fresh_then_disable (M : Meths) (env : Env) (b w : Nat) :
+    ∃ env', runFn M (rlInitEnv b w env) Src.RateLimiter_disable = .ok (pnone, env') ∧
+      Has env' (limAttrs ({ enabled := false } : Limiter) (b * w)) := by
+  refine ⟨(rlInitEnv b w env).set "self.enabled" (pbool false), by simp [runFn, Src.RateLimiter_disable, execBlock, execStmt, eval], ?_⟩
+  by_cases hcan : 0 < b ∧ 0 < w <;> simp [Has, limAttrs, rlInitEnv, enableEnv, limResetEnv, set_get, hcan]
+
+theorem ratelimiter_fresh_then_enable (env : Env) (b w : Nat) (hcan : 0 < b ∧ 0 < w) :
+    ∃ env', envM rlM (rlInitEnv b w env) Src.RateLimiter_enable = .ok env' ∧
+      Has env' (limAttrs ({ enabled := true } : Limiter) (b * w)) := by
+  refine ⟨enableEnv b w (rlInitEnv b w env), ?_, ?_⟩
+  · rw [enable_run _ b w (by simp [rlInitEnv, enableEnv, limResetEnv, set_get, hcan])
+      (by simp [rlInitEnv, enableEnv, limResetEnv, set_get, hcan]), if_pos hcan]
+  · simp [Has, limAttrs, enableEnv, limResetEnv, set_get]
+
+example : (rlInitEnv 1000000 1 (envOf [("mean_bitrate", pint 1000000), ("window_size_sec", pint 1)])) "self.enabled" =
+    some (pbool true) := by simp [rlInitEnv, enableEnv, limResetEnv, set_get]
+
+
+/-! ## 2. `TransportLayerLogic.SendRequest.__init__` (isotp/protocol.py)
+
+  ```
+  if isinstance(data, tuple):
+      if len(data) != 2: raise ValueError
+      gen, size = data
+      self.generator = FiniteByteGenerator(gen, size)
+  elif isinstance(data, Iterable):
+      data = cast(Union[bytes, bytearray], data)          # dumped as `data = data`: `typing.cast` is the identity at run time
+      self.generator = FiniteByteGenerator((x for x in data), len(data))
+  else: raise ValueError
+  self.consumed_size = 0; self.target_address_type = target_address_type; self.complete_event = threading.Event(); self.success = False
+  ```
+  PRESENTATION of the payload `data`:
+  * a tuple is a `PV.list xs` of scalars (`len` is then the interpreter's builtin); a generator OBJECT is an opaque scalar
+    `.py (.other tag)`; the parameter `yields : Nat → Option Bytes` says which tags are generator objects and what each will yield
+    (the model's `Req.src`: "what the generator will still yield");
+  * `bytes` / `bytearray` is `PV.bytes b`;
+  * any other value is neither a tuple nor an `Iterable` (a `str` or a `list` IS iterable in Python and would be accepted by the
+    constructor, to fail later in `consume`: such payloads are outside this presentation, as they are outside the model's `SendArgs`).
+  ASSUMPTIONS (`sriM`): `isinstance(data, tuple)` / `isinstance(data, Iterable)` read the shape of the value; `gen, size = data` binds the two
+  names to the two elements of a pair (`ValueError` otherwise - unreachable after the length test); the generator expression
+  `(x for x in data)` is a NEW generator object `it` that will yield the bytes of `data` (the parameter `it`, with `yields it = some b`
+  checked by the primitive); `threading.Event()` is an opaque object.  `FiniteByteGenerator(gen, size)` RUNS
+  `Src.FiniteByteGenerator_init` (`fbg_init_agrees`, LayerSend.lean - not duplicated here) in a fresh frame and packs the four attributes
+  `[_gen, _size, _consumed, _depleted]` into the value stored in `self.generator`. -/
+
+/-- `isinstance(v, types.GeneratorType)` -/
+def isGenV (yields : Nat → Option Bytes) : PV → Bool
+  | .sc (.py (.other t)) => (yields t).isSome
+  | _ => false
+
+def isTupleV : PV → Bool
+  | .list _ => true
+  | _ => false
+
+def isIterV : PV → Bool
+  | .list _ => true
+  | .bytes _ => true
+  | _ => false
+
+/-- the `FiniteByteGenerator` object as a value -/
+def packFbg (e : Env) : Except PErr PV :=
+  match e "self._gen", e "self._size", e "self._consumed", e "self._depleted" with
+  | some (.sc a), some (.sc b), some (.sc c), some (.sc d) => .ok (.list [a, b, c, d])
+  | _, _, _, _ => .error (.unsupported "FiniteByteGenerator object")
+
+/-- `FiniteByteGenerator(g, sz)`: its `__init__` run from the source in a fresh frame -/
+def fbgNew (yields : Nat → Option Bytes) (g sz : PV) : Except PErr PV :=
+  match runFn (fbgInitMeths (isGenV yields g)) (envOf [("gen", g), ("size", sz)]) Src.FiniteByteGenerator_init with
+  | .ok (_, e) => packFbg e
+  | .error x => .error x
+
+/-- the fresh generator object: declared size, nothing consumed, not depleted -/
+def fbgObj (g sz : Sc) : PV := .list [g, sz, .py (.int 0), .py (.bool false)]
+
+theorem fbgNew_eq (yields : Nat → Option Bytes) (ga sa : Sc) :
+    fbgNew yields (.sc ga) (.sc sa) =
+      if isGenV yields (.sc ga) && sizeOk (.sc sa) then .ok (fbgObj ga sa) else .error (.exc .ValueError) := by
+  unfold fbgNew
+  rw [fbg_init_agrees _ (.sc ga) (.sc sa) _ rfl rfl]
+  by_cases hc : (isGenV yields (.sc ga) && sizeOk (.sc sa)) = true
+  · rw [if_pos hc, if_pos hc]; simp [packFbg, set_get, fbgObj]
+  · rw [if_neg hc, if_neg hc]
+
+def sriM (yields : Nat → Option Bytes) (it : Nat) : Meths where
+  fn := fun name args _ =>
+    match name, args with
+    | "isinstance_tuple", [v] => .ok (pbool (isTupleV v))
+    | "isinstance_Iterable", [v] => .ok (pbool (isIterV v))
+    | "__iter__", [.bytes b] =>
+      if yields it = some b then .ok (.sc (.py (.other it))) else .error (.unsupported "generator object")
+    | "FiniteByteGenerator", [g, sz] => fbgNew yields g sz
+    | "threading.Event", [] => .ok (.meth "Event")
+    | n, _ => .error (.unsupported ("call " ++ n))
+  proc := fun name args env =>
+    match name, args with
+    | "gen,size:=__unpack__", [.list [a, b]] => .ok ((env.set "gen" (.sc a)).set "size" (.sc b))
+    | "gen,size:=__unpack__", [_] => .error (.exc .ValueError)
+    | n, _ => .error (.unsupported ("call " ++ n))
+
+section sri
+variable (yields : Nat → Option Bytes) (it : Nat)
+
+theorem sriM_tuple (v : PV) (env : Env) : (sriM yields it).fn "isinstance_tuple" [v] env = .ok (pbool (isTupleV v)) := rfl
+theorem sriM_iterable (v : PV) (env : Env) : (sriM yields it).fn "isinstance_Iterable" [v] env = .ok (pbool (isIterV v)) := rfl
+theorem sriM_iter (b : Bytes) (env : Env) (h : yields it = some b) :
+    (sriM yields it).fn "__iter__" [.bytes b] env = .ok (.sc (.py (.other it))) := by
+  show (if yields it = some b then Except.ok (PV.sc (.py (.other it))) else _) = _
+  rw [if_pos h]
+theorem sriM_fbg (g sz : PV) (env : Env) : (sriM yields it).fn "FiniteByteGenerator" [g, sz] env = fbgNew yields g sz := rfl
+theorem sriM_event (env : Env) : (sriM yields it).fn "threading.Event" [] env = .ok (.meth "Event") := rfl
+theorem sriM_unpack (a b : Sc) (env : Env) :
+    (sriM yields it).proc "gen,size:=__unpack__" [.list [a, b]] env = .ok ((env.set "gen" (.sc a)).set "size" (.sc b)) := rfl
+
+def iteC : PStmt → PExpr
+  | .ite c _ _ => c
+  | _ => .none
+def iteT : PStmt → PBlock
+  | .ite _ t _ => t
+  | _ => .nil
+def iteE : PStmt → PBlock
+  | .ite _ _ e => e
+  | _ => .nil
+
+abbrev SB : PBlock := Src.TransportLayerLogic_SendRequest_init
+/-- the tuple branch -/
+abbrev TB : PBlock := iteT (nth SB 0)
+/-- the `elif` -/
+abbrev ES : PStmt := nth (iteE (nth SB 0)) 0
+/-- the bytes branch -/
+abbrev IB : PBlock := iteT ES
+
+theorem s0_shape : nth SB 0 = .ite (.call "isinstance_tuple" (.cons (.var "data") .nil)) TB (.cons ES .nil) := rfl
+theorem es_shape : ES = .ite (.call "isinstance_Iterable" (.cons (.var "data") .nil)) IB (.cons (.raise "ValueError") .nil) := rfl
+
+theorem builtin_len_list (xs : List Sc) : evalBuiltin "len" [.list xs] = some (.ok (pint xs.length)) := by simp [evalBuiltin]
+
+/-- the four attribute assignments after the `if` -/
+def sriTail (tv : PV) (env : Env) : Env :=
+  (((env.set "self.consumed_size" (pint 0)).set "self.target_address_type" tv).set "self.complete_event" (.meth "Event")).set
+    "self.success" (pbool false)
+
+theorem sri_tail_run (env : Env) (tv : PV) (h : env "target_address_type" = some tv) :
+    execBlock (sriM yields it) env (drop SB 1) = .ok (.next (sriTail tv env)) := by
+  rw [step_next (b := SB) (n := 1) rfl (exec_assign _ _ "self.consumed_size" (.int 0) (pint 0) (by simp [eval]))]
+  rw [step_next (b := SB) (n := 2) rfl (exec_assign _ _ "self.target_address_type" _ tv
+    (eval_var _ _ _ _ (by simp [set_get, h])))]
+  rw [step_next (b := SB) (n := 3) rfl (exec_assign _ _ "self.complete_event" _ (.meth "Event")
+    (by rw [eval_call _ _ "threading.Event" _ [] (by decide) rfl]; rfl))]
+  rw [step_next (b := SB) (n := 4) rfl (exec_assign _ _ "self.success" .ff (pbool false) (by simp [eval]))]
+  rfl
+
+theorem eval_is_tuple (env : Env) (dv : PV) (h : env "data" = some dv) :
+    eval (sriM yields it) env (.call "isinstance_tuple" (.cons (.var "data") .nil)) = .ok (pbool (isTupleV dv)) := by
+  rw [eval_call _ _ "isinstance_tuple" _ [dv] (by decide) (args1 _ _ _ _ (eval_var _ _ _ _ h))]; rfl
+
+theorem eval_is_iterable (env : Env) (dv : PV) (h : env "data" = some dv) :
+    eval (sriM yields it) env (.call "isinstance_Iterable" (.cons (.var "data") .nil)) = .ok (pbool (isIterV dv)) := by
+  rw [eval_call _ _ "isinstance_Iterable" _ [dv] (by decide) (args1 _ _ _ _ (eval_var _ _ _ _ h))]; rfl
+
+/-- the first statement of the tuple branch: `if len(data) != 2: raise ValueError` -/
+theorem len_check (env : Env) (xs : List Sc) (h : env "data" = some (.list xs)) :
+    execStmt (sriM yields it) env (nth TB 0) = if xs.length = 2 then .ok (.next env) else .error (.exc .ValueError) := by
+  have hl : eval (sriM yields it) env (.call "len" (.cons (.var "data") .nil)) = .ok (pint xs.length) := by
+    simp [eval, evalArgs, h, builtin_len_list]
+  have hc : eval (sriM yields it) env (.cmp .ne (.call "len" (.cons (.var "data") .nil)) (.int 2)) =
+      .ok (pbool (!decide (xs.length = 2))) := by
+    rw [eval_cmp _ _ _ _ _ _ (pint 2) hl (by simp [eval]), evalCmp_ne, pvEq_pint]
+    congr 2
+    rw [Bool.eq_iff_iff]; simp; omega
+  show execStmt _ env (.ite (.cmp .ne (.call "len" (.cons (.var "data") .nil)) (.int 2)) (.cons (.raise "ValueError") .nil) .nil) = _
+  rw [Thr.exec_ite _ _ _ _ _ _ hc]
+  by_cases h2 : xs.length = 2
+  · simp [h2, execBlock]
+  · simp [h2, execBlock, execStmt]
+
+/-- the environment after the `if` for a pair `(g, sz)` -/
+def tupleEnv (g sz : Sc) (env : Env) : Env := ((env.set "gen" (.sc g)).set "size" (.sc sz)).set "self.generator" (fbgObj g sz)
+
+/-- the tuple branch on a pair -/
+theorem tuple_branch (env : Env) (g sz : Sc) (h : env "data" = some (.list [g, sz])) :
+    execBlock (sriM yields it) env TB =
+      if isGenV yields (.sc g) && sizeOk (.sc sz) then .ok (.next (tupleEnv g sz env)) else .error (.exc .ValueError) := by
+  have s0 := len_check yields it env [g, sz] h
+  simp only [List.length_cons, List.length_nil, if_true] at s0
+  have s1 : execStmt (sriM yields it) env (nth TB 1) = .ok (.next ((env.set "gen" (.sc g)).set "size" (.sc sz))) :=
+    exec_proc _ _ _ "gen,size:=__unpack__" _ [.list [g, sz]] (by decide) (args1 _ _ _ _ (eval_var _ _ _ _ h)) (sriM_unpack yields it g sz env)
+  have hg : eval (sriM yields it) ((env.set "gen" (.sc g)).set "size" (.sc sz))
+      (.call "FiniteByteGenerator" (.cons (.var "gen") (.cons (.var "size") .nil))) = fbgNew yields (.sc g) (.sc sz) := by
+    rw [eval_call _ _ "FiniteByteGenerator" _ [.sc g, .sc sz] (by decide)
+      (args2 _ _ _ _ _ _ (eval_var _ _ _ _ (by simp [set_get])) (eval_var _ _ _ _ (by simp [set_get])))]
+    rfl
+  show execBlock _ env (drop TB 0) = _
+  rw [step_next rfl s0, step_next rfl s1]
+  rw [fbgNew_eq] at hg
+  by_cases hc : (isGenV yields (.sc g) && sizeOk (.sc sz)) = true
+  · rw [if_pos hc] at hg ⊢
+    rw [step_next (b := TB) (n := 2) rfl (exec_assign _ _ "self.generator" _ _ hg)]
+    rfl
+  · rw [if_neg hc] at hg ⊢
+    exact step_err (b := TB) (n := 2) rfl (exec_assign_err _ _ "self.generator" _ _ hg)
+
+/-- what `SendRequest.__init__` leaves for a pair `(g, sz)` -/
+def sriTupleEnv (g sz : Sc) (tv : PV) (env : Env) : Env := sriTail tv (tupleEnv g sz env)
+
+/-- the outcome for a tuple -/
+def tupleSpec (yields : Nat → Option Bytes) (xs : List Sc) (tv : PV) (env : Env) : Except PErr (PV × Env) :=
+  match xs with
+  | [g, sz] =>
+    if isGenV yields (.sc g) && sizeOk (.sc sz) then .ok (pnone, sriTupleEnv g sz tv env) else .error (.exc .ValueError)
+  | _ => .error (.exc .ValueError)
+
+/-- **`SendRequest.__init__((gen, size), tat)`** and every other tuple: `ValueError` unless the tuple has exactly two items, the first a
+    generator and the second a non-negative `int`; then the request holds `FiniteByteGenerator(gen, size)` (nothing consumed, not
+    depleted), `consumed_size = 0`, the target address type, a fresh event and `success = False` -/
+theorem send_request_init_tuple (env : Env) (xs : List Sc) (tv : PV) (h1 : env "data" = some (.list xs))
+    (h2 : env "target_address_type" = some tv) :
+    runFn (sriM yields it) env Src.TransportLayerLogic_SendRequest_init = tupleSpec yields xs tv env := by
+  have hc := eval_is_tuple yields it env _ h1
+  have e0 : execStmt (sriM yields it) env (nth SB 0) = execBlock (sriM yields it) env TB := by
+    rw [s0_shape, Thr.exec_ite _ _ _ _ _ _ hc]; rfl
+  have bad : xs.length ≠ 2 → runFn (sriM yields it) env SB = .error (.exc .ValueError) := by
+    intro hl
+    have s0 := len_check yields it env xs h1
+    rw [if_neg hl] at s0
+    apply runFn_err
+    show execBlock _ env (drop SB 0) = _
+    refine step_err rfl (e0.trans ?_)
+    show execBlock _ env (drop TB 0) = _
+    exact step_err rfl s0
+  match xs, h1, bad with
+  | [], _, bad => exact bad (by simp)
+  | [_], _, bad => exact bad (by simp)
+  | _ :: _ :: _ :: _, _, bad => exact bad (by simp)
+  | [g, sz], h1, _ =>
+    have hb := tuple_branch yields it env g sz h1
+    show runFn _ env SB = if isGenV yields (.sc g) && sizeOk (.sc sz) then _ else _
+    by_cases hk : (isGenV yields (.sc g) && sizeOk (.sc sz)) = true
+    · rw [if_pos hk] at hb ⊢
+      apply runFn_next
+      show execBlock _ env (drop SB 0) = _
+      rw [step_next rfl (e0.trans hb)]
+      exact sri_tail_run yields it _ tv (by simp [tupleEnv, set_get, h2])
+    · rw [if_neg hk] at hb ⊢
+      apply runFn_err
+      show execBlock _ env (drop SB 0) = _
+      exact step_err rfl (e0.trans hb)
+
+/-- what `SendRequest.__init__` leaves for `bytes` -/
+def sriBytesEnv (it : Nat) (b : Bytes) (tv : PV) (env : Env) : Env :=
+  sriTail tv (env.set "self.generator" (fbgObj (.py (.other it)) (.py (.int b.length))))
+
+/-- **`SendRequest.__init__(bytes, tat)`**: never raises; the request holds `FiniteByteGenerator((x for x in data), len(data))` -/
+theorem send_request_init_bytes (env : Env) (b : Bytes) (tv : PV) (hy : yields it = some b) (h1 : env "data" = some (.bytes b))
+    (h2 : env "target_address_type" = some tv) :
+    runFn (sriM yields it) env Src.TransportLayerLogic_SendRequest_init = .ok (pnone, sriBytesEnv it b tv env) := by
+  have hc := eval_is_tuple yields it env _ h1
+  have hi := eval_is_iterable yields it env _ h1
+  have hit : eval (sriM yields it) env (.call "__iter__" (.cons (.var "data") .nil)) = .ok (.sc (.py (.other it))) := by
+    rw [eval_call _ _ "__iter__" _ [.bytes b] (by decide) (args1 _ _ _ _ (eval_var _ _ _ _ h1)), sriM_iter yields it b env hy]
+  have hlen : eval (sriM yields it) env (.call "len" (.cons (.var "data") .nil)) = .ok (pint b.length) := by
+    simp [eval, evalArgs, h1, builtin_len_bytes]
+  have hok : (isGenV yields (.sc (.py (.other it))) && sizeOk (pint b.length)) = true := by
+    simp [isGenV, hy, sizeOk, Sc.isInt, Sc.intVal, PyVal.isInt, PyVal.intVal]
+  have hg : eval (sriM yields it) env (.call "FiniteByteGenerator"
+      (.cons (.call "__iter__" (.cons (.var "data") .nil)) (.cons (.call "len" (.cons (.var "data") .nil)) .nil))) =
+      .ok (fbgObj (.py (.other it)) (.py (.int b.length))) := by
+    rw [eval_call _ _ "FiniteByteGenerator" _ [.sc (.py (.other it)), pint b.length] (by decide) (args2 _ _ _ _ _ _ hit hlen),
+      sriM_fbg, fbgNew_eq, if_pos hok]
+  have ib : execBlock (sriM yields it) env IB =
+      .ok (.next (env.set "self.generator" (fbgObj (.py (.other it)) (.py (.int b.length))))) := by
+    show execBlock _ env (drop IB 0) = _
+    have a0 : execStmt (sriM yields it) env (nth IB 0) = .ok (.next env) := by
+      have := exec_assign (sriM yields it) env "data" (.var "data") _ (eval_var _ _ _ _ h1)
+      rwa [set_same env _ _ h1] at this
+    rw [step_next rfl a0, step_next (b := IB) (n := 1) rfl (exec_assign _ _ "self.generator" _ _ hg)]
+    rfl
+  have e0 : execStmt (sriM yields it) env (nth SB 0) =
+      .ok (.next (env.set "self.generator" (fbgObj (.py (.other it)) (.py (.int b.length))))) := by
+    rw [s0_shape, Thr.exec_ite _ _ _ _ _ _ hc]
+    show execBlock _ env (.cons ES .nil) = _
+    simp only [execBlock]
+    rw [es_shape, Thr.exec_ite _ _ _ _ _ _ hi]
+    show (execBlock _ env IB >>= _) = _
+    rw [ib]; rfl
+  apply runFn_next
+  show execBlock _ env (drop SB 0) = _
+  rw [step_next rfl e0]
+  exact sri_tail_run yields it _ tv (by simp [set_get, h2])
+
+/-- **anything that is neither a tuple nor an `Iterable`: `ValueError`** -/
+theorem send_request_init_other (env : Env) (dv : PV) (h1 : env "data" = some dv) (ht : isTupleV dv = false)
+    (hi : isIterV dv = false) :
+    runFn (sriM yields it) env Src.TransportLayerLogic_SendRequest_init = .error (.exc .ValueError) := by
+  have hc := eval_is_tuple yields it env _ h1
+  have hi' := eval_is_iterable yields it env _ h1
+  rw [ht] at hc; rw [hi] at hi'
+  apply runFn_err
+  show execBlock _ env (drop SB 0) = _
+  refine step_err rfl ?_
+  rw [s0_shape, Thr.exec_ite _ _ _ _ _ _ hc]
+  show execBlock _ env (.cons ES .nil) = _
+  simp only [execBlock]
+  rw [es_shape, Thr.exec_ite _ _ _ _ _ _ hi']
+  simp [execBlock, execStmt]
+
+end sri
+
+
+/-- the three shapes of `data` at once -/
+def sriSpec (yields : Nat → Option Bytes) (it : Nat) (dv tv : PV) (env : Env) : Except PErr (PV × Env) :=
+  match dv with
+  | .list xs => tupleSpec yields xs tv env
+  | .bytes b => .ok (pnone, sriBytesEnv it b tv env)
+  | _ => .error (.exc .ValueError)
+
+/-- **`SendRequest.__init__(data, target_address_type)`** for every payload of the presentation: a tuple (any length, any items),
+    `bytes` (the generator expression's object `it` yields them: `hy`), or a value that is neither a tuple nor iterable -/
+theorem send_request_init_agrees (yields : Nat → Option Bytes) (it : Nat) (env : Env) (dv tv : PV) (h1 : env "data" = some dv)
+    (h2 : env "target_address_type" = some tv) (hy : ∀ b, dv = .bytes b → yields it = some b) :
+    runFn (sriM yields it) env Src.TransportLayerLogic_SendRequest_init = sriSpec yields it dv tv env := by
+  cases dv with
+  | list xs => exact send_request_init_tuple yields it env xs tv h1 h2
+  | bytes b => exact send_request_init_bytes yields it env b tv (hy b rfl) h1 h2
+  | sc x => exact send_request_init_other yields it env _ h1 rfl rfl
+  | str x => exact send_request_init_other yields it env _ h1 rfl rfl
+  | meth x => exact send_request_init_other yields it env _ h1 rfl rfl
+
+/-- the attributes of the constructed request, explicitly -/
+theorem sriTail_lookups (tv : PV) (env : Env) :
+    sriTail tv env "self.consumed_size" = some (pint 0) ∧ sriTail tv env "self.target_address_type" = some tv ∧
+    sriTail tv env "self.complete_event" = some (.meth "Event") ∧ sriTail tv env "self.success" = some (pbool false) ∧
+    sriTail tv env "self.generator" = env "self.generator" := by
+  simp [sriTail, set_get]
+
+/-! ### the model's `Req`
+
+  `State.send` (Process.lean) enqueues `{ id, size, src, tat, instr }` with `consumed := 0`, `depletedFlag := false` (`Send.newReq`,
+  LayerSend.lean).  `id` (the identity the harness gives the request) and `instr` (is the generator instrumented by the harness) are
+  not attributes of the Python object: they are parameters of the decoding. -/
+
+/-- the model request the constructed object shows -/
+def reqOf (yields : Nat → Option Bytes) (id : Nat) (instr : Bool) (tat : Tat) (env : Env) : Option Req :=
+  match env "self.generator", env "self.target_address_type" with
+  | some (.list [.py (.other t), .py (.int sz), .py (.int c), .py (.bool d)]), some tv =>
+    if tv = tatPV tat then
+      (yields t).map fun src => { id := id, size := sz.toNat, src := src, consumed := c.toNat, depletedFlag := d, tat := tat, instr := instr }
+    else none
+  | _, _ => none
+
+/-- **`bytes` payload: the constructed request is the model's `newReq`** (`a.size = len(data)`, `a.src = data`) -/
+theorem send_request_init_bytes_is_newReq (yields : Nat → Option Bytes) (it : Nat) (s : State) (a : State.SendArgs) (env : Env)
+    (hy : yields it = some a.src) (hsz : a.size = a.src.length) :
+    reqOf yields a.id a.instr (tatOf s a) (sriBytesEnv it a.src (tatPV (tatOf s a)) env) = some (newReq s a) := by
+  simp [reqOf, sriBytesEnv, sriTail, fbgObj, set_get, hy, newReq, hsz]
+
+/-- **`(generator, size)` payload: the constructed request is the model's `newReq`** (the generator object `t` yields `a.src`) -/
+theorem send_request_init_tuple_is_newReq (yields : Nat → Option Bytes) (t : Nat) (s : State) (a : State.SendArgs) (env : Env)
+    (hy : yields t = some a.src) :
+    reqOf yields a.id a.instr (tatOf s a) (sriTupleEnv (.py (.other t)) (.py (.int a.size)) (tatPV (tatOf s a)) env) =
+      some (newReq s a) := by
+  simp [reqOf, sriTupleEnv, tupleEnv, sriTail, fbgObj, set_get, hy, newReq]
+
+/-- ... and it is accepted exactly when the model's first check passes (`a.size < 0 → ValueError`) -/
+theorem send_request_init_tuple_accepts (yields : Nat → Option Bytes) (t : Nat) (a : State.SendArgs) (hy : yields t = some a.src) :
+    (isGenV yields (.sc (.py (.other t))) && sizeOk (.sc (.py (.int a.size)))) = decide (0 ≤ a.size) := by
+  by_cases h : 0 ≤ a.size <;> simp [isGenV, hy, sizeOk, Sc.isInt, Sc.intVal, PyVal.isInt, PyVal.intVal, h]
+
+/-! ## 3. `TransportLayer.__init__` (isotp/protocol.py) = `TL.init`
+
+  ```
+  self.rx_relay_queue = queue.Queue(); self.started = False; self.main_thread = None; self.relay_thread = None
+  self.default_read_timeout = read_timeout; self.events = self.Events(); self.user_rxfn = rxfn
+  def post_send_callback(...): ...
+  TransportLayerLogic.__init__(self, rxfn, txfn, address, error_handler, params, post_send_callback)
+  self.user_rxfn = self.rxfn
+  ```
+  ASSUMPTIONS (`tlInitM`): `queue.Queue()` is the empty queue `[]`; `self.Events()` is an object holding seven fresh (cleared)
+  `threading.Event`s (`eventsObj`); the nested `def` is the function object `post_send_callback`; the BASE CONSTRUCTOR is a `proc` that
+  * refuses (interpreter error) any argument list other than the expected one `exp` - so a successful run PROVES the arguments,
+  * counts its calls under the history key `#base_init.calls`,
+  * and otherwise does `base : Env → Env` to the object (sections 1 / D of this file and of LayerSend.lean say what that is), of which
+    the wrapper's constructor only reads `self.rxfn` afterwards (the `rxfn` as normalised by the logic layer). -/
+
+/-- a fresh `TransportLayer.Events()`: seven cleared flags -/
+def eventsObj : PV := .list (List.replicate 7 (.py (.bool false)))
+
+/-- how often the base constructor has run on this object -/
+def callsOf (env : Env) : Int :=
+  match env "#base_init.calls" with
+  | some (.sc (.py (.int n))) => n
+  | _ => 0
+
+def tlInitM (exp : List PV) (base : Env → Env) : Meths where
+  fn := fun name args _ =>
+    match name, args with
+    | "queue.Queue", [] => .ok (.list [])
+    | "self.Events", [] => .ok eventsObj
+    | "__function__", [.str s] => .ok (.meth s)
+    | n, _ => .error (.unsupported ("call " ++ n))
+  proc := fun name args env =>
+    match name with
+    | "TransportLayerLogic.__init__" =>
+      if args = exp then .ok ((base env).set "#base_init.calls" (pint (callsOf env + 1)))
+      else .error (.unsupported "base constructor called with other arguments")
+    | n => .error (.unsupported ("call " ++ n))
+
+theorem tlInitM_base (exp : List PV) (base : Env → Env) (args : List PV) (env : Env) :
+    (tlInitM exp base).proc "TransportLayerLogic.__init__" args env =
+      if args = exp then .ok ((base env).set "#base_init.calls" (pint (callsOf env + 1)))
+      else .error (.unsupported "base constructor called with other arguments") := rfl
+
+/-- the arguments of `TransportLayer.__init__` (and `self`) -/
+structure TlArgs (sv rx tx ad eh pr rt : PV) (env : Env) : Prop where
+  self : env "self" = some sv
+  rxfn : env "rxfn" = some rx
+  txfn : env "txfn" = some tx
+  address : env "address" = some ad
+  eh : env "error_handler" = some eh
+  params : env "params" = some pr
+  rt : env "read_timeout" = some rt
+
+/-- the object before the base constructor is called -/
+def tlPre (rx rt : PV) (env : Env) : Env :=
+  (((((((env.set "self.rx_relay_queue" (.list [])).set "self.started" (pbool false)).set "self.main_thread" pnone).set
+    "self.relay_thread" pnone).set "self.default_read_timeout" rt).set "self.events" eventsObj).set "self.user_rxfn" rx).set
+    "post_send_callback" (.meth "post_send_callback")
+
+/-- what `TransportLayer.__init__` leaves (`rx'` = `self.rxfn` as the base constructor left it) -/
+def tlInitEnv (base : Env → Env) (rx rx' rt : PV) (env : Env) : Env :=
+  ((base (tlPre rx rt env)).set "#base_init.calls" (pint (callsOf env + 1))).set "self.user_rxfn" rx'
+
+/-- the argument list the base constructor must be called with -/
+def baseArgs (sv rx tx ad eh pr : PV) : List PV := [sv, rx, tx, ad, eh, pr, .meth "post_send_callback"]
+
+theorem callsOf_tlPre (rx rt : PV) (env : Env) : callsOf (tlPre rx rt env) = callsOf env := by
+  simp [callsOf, tlPre, set_get]
+
+abbrev TLB : PBlock := Src.TransportLayer_init
+
+/-- the eight statements before the base constructor -/
+theorem tl_prefix_run (exp : List PV) (base : Env → Env) (sv rx tx ad eh pr rt : PV) (env : Env)
+    (hA : TlArgs sv rx tx ad eh pr rt env) :
+    execBlock (tlInitM exp base) env TLB = execBlock (tlInitM exp base) (tlPre rx rt env) (drop TLB 8) := by
+  show execBlock _ env (drop TLB 0) = _
+  rw [step_next (b := TLB) (n := 0) rfl (exec_assign _ _ "self.rx_relay_queue" _ (.list [])
+    (by rw [eval_call _ _ "queue.Queue" _ [] (by decide) rfl]; rfl))]
+  rw [step_next (b := TLB) (n := 1) rfl (exec_assign _ _ "self.started" .ff (pbool false) (by simp [eval]))]
+  rw [step_next (b := TLB) (n := 2) rfl (exec_assign _ _ "self.main_thread" .none pnone (by simp [eval]))]
+  rw [step_next (b := TLB) (n := 3) rfl (exec_assign _ _ "self.relay_thread" .none pnone (by simp [eval]))]
+  rw [step_next (b := TLB) (n := 4) rfl (exec_assign _ _ "self.default_read_timeout" _ rt
+    (eval_var _ _ _ _ (by simp [set_get, hA.rt])))]
+  rw [step_next (b := TLB) (n := 5) rfl (exec_assign _ _ "self.events" _ eventsObj
+    (by rw [eval_call _ _ "self.Events" _ [] (by decide) rfl]; rfl))]
+  rw [step_next (b := TLB) (n := 6) rfl (exec_assign _ _ "self.user_rxfn" _ rx
+    (eval_var _ _ _ _ (by simp [set_get, hA.rxfn])))]
+  rw [step_next (b := TLB) (n := 7) rfl (exec_assign _ _ "post_send_callback" _ (.meth "post_send_callback")
+    (by rw [eval_call _ _ "__function__" _ [.str "post_send_callback"] (by decide) (by simp [evalArgs, eval])]; rfl))]
+  rfl
+
+/-- the arguments the source passes to the base constructor -/
+theorem tl_base_args (M : Meths) (sv rx tx ad eh pr rt : PV) (env : Env) (hA : TlArgs sv rx tx ad eh pr rt env) :
+    evalArgs M (tlPre rx rt env) (.cons (.var "self") (.cons (.var "rxfn") (.cons (.var "txfn") (.cons (.var "address")
+      (.cons (.var "error_handler") (.cons (.var "params") (.cons (.var "post_send_callback") .nil))))))) =
+      .ok (baseArgs sv rx tx ad eh pr) := by
+  simp [evalArgs, eval, tlPre, set_get, hA.self, hA.rxfn, hA.txfn, hA.address, hA.eh, hA.params, baseArgs]
+
+/-- **`TransportLayer.__init__`**, for EVERY expected argument list `exp`: the run succeeds exactly when the base constructor is handed
+    `(self, rxfn, txfn, address, error_handler, params, post_send_callback)` - the same arguments, in this order, plus the wake-up
+    callback; it is then called once (`transport_layer_init_calls_once`) on an object that already has `started = False`, no threads, an
+    empty relay queue and fresh events (`tlPre`), and finally `user_rxfn` is the `rxfn` the logic layer kept -/
+theorem transport_layer_init_agrees (exp : List PV) (base : Env → Env) (sv rx rx' tx ad eh pr rt : PV) (env : Env)
+    (hA : TlArgs sv rx tx ad eh pr rt env) (hrx : ∀ e, base e "self.rxfn" = some rx') :
+    runFn (tlInitM exp base) env Src.TransportLayer_init =
+      if baseArgs sv rx tx ad eh pr = exp then .ok (pnone, tlInitEnv base rx rx' rt env)
+      else .error (.unsupported "base constructor called with other arguments") := by
+  have hargs := tl_base_args (tlInitM exp base) sv rx tx ad eh pr rt env hA
+  have hp := tlInitM_base exp base (baseArgs sv rx tx ad eh pr) (tlPre rx rt env)
+  by_cases he : baseArgs sv rx tx ad eh pr = exp
+  · rw [if_pos he] at hp ⊢
+    rw [callsOf_tlPre] at hp
+    apply runFn_next
+    rw [tl_prefix_run exp base sv rx tx ad eh pr rt env hA]
+    rw [step_next (b := TLB) (n := 8) rfl (exec_proc _ _ _ "TransportLayerLogic.__init__" _ _ (by decide) hargs hp)]
+    rw [step_next (b := TLB) (n := 9) rfl (exec_assign _ _ "self.user_rxfn" _ rx'
+      (eval_var _ _ _ _ (by simp [set_get, hrx])))]
+    rfl
+  · rw [if_neg he] at hp ⊢
+    apply runFn_err
+    rw [tl_prefix_run exp base sv rx tx ad eh pr rt env hA]
+    exact step_err (b := TLB) (n := 8) rfl (exec_proc_err _ _ "TransportLayerLogic.__init__" _ _ _ (by decide) hargs hp)
+
+/-- the base constructor has run exactly once more than before (once on a new object) -/
+theorem transport_layer_init_calls_once (base : Env → Env) (rx rx' rt : PV) (env : Env) :
+    tlInitEnv base rx rx' rt env "#base_init.calls" = some (pint (callsOf env + 1)) ∧
+    callsOf (tlInitEnv base rx rx' rt env) = callsOf env + 1 := by
+  simp [tlInitEnv, callsOf, set_get]
+
+
+/-! ### the constructed wrapper is the model's `TL.init`
+
+  Threaded.lean shows a wrapper state `t : TL` by `Thr.ShowsW env t`, in which the relay queue and the seven events appear under
+  history keys (`#relay_queue`, `#ev.*`).  The constructor stores OBJECTS (`self.rx_relay_queue = queue.Queue()`,
+  `self.events = self.Events()`) and the flat interpreter cannot bind `x.attr` on `x = obj`: `wrapView` reads those keys off the two
+  objects (a function of the environment, as the adapters of LayerWhole.lean).  The remaining hypotheses are about things the
+  constructor does not create: the bound methods of the class, no thread of this object alive, nothing on the bus yet. -/
+
+/-- the content of a queue object -/
+def qv : Option PV → PV
+  | some v => v
+  | none => pnone
+
+/-- the `i`-th flag of an `Events` object -/
+def evFlag (o : Option PV) (i : Nat) : PV :=
+  match o with
+  | some (.list xs) => (match xs[i]? with | some x => .sc x | none => pnone)
+  | _ => pnone
+
+def wrapView (env : Env) : Env :=
+  (((((((env.set "#relay_queue" (qv (env "self.rx_relay_queue"))).set "#ev.main_thread_ready" (evFlag (env "self.events") 0)).set
+    "#ev.relay_thread_ready" (evFlag (env "self.events") 1)).set "#ev.stop_requested" (evFlag (env "self.events") 2)).set
+    "#ev.reset_tx" (evFlag (env "self.events") 3)).set "#ev.reset_rx" (evFlag (env "self.events") 4)).set
+    "#ev.reset_tx_complete" (evFlag (env "self.events") 5)).set "#ev.reset_rx_complete" (evFlag (env "self.events") 6)
+
+/-- what exists before the constructor runs -/
+structure TlWorld (env : Env) : Prop where
+  mainA : env "#alive.main" = some (pbool false)
+  relayA : env "#alive.relay" = some (pbool false)
+  bus : env "#bus" = some (.list [])
+  cRelayFn : env "self._read_relay_queue" = some (Thr.rxfnPV true)
+  cMainT : env "self._main_thread_fn" = some (.meth "self._main_thread_fn")
+  cRelayT : env "self._relay_thread_fn" = some (.meth "self._relay_thread_fn")
+
+/-- the keys of the wrapper the base constructor must leave alone (it is the constructor of the LOGIC layer; `self.rxfn` is the one
+    attribute of `Thr.wrapperKeys` it does write) -/
+def tlFrameKeys : List String :=
+  ["self.started", "self.main_thread", "self.relay_thread", "#alive.main", "#alive.relay", "#bus", "self._read_relay_queue",
+   "self._main_thread_fn", "self._relay_thread_fn", "self.default_read_timeout", "self.rx_relay_queue", "self.events"]
+
+/-- **the constructed wrapper shows `TL.init c a`** (wrapper part: `Thr.ShowsW`): not started, no threads, empty relay queue, all
+    seven events clear, the user's `rxfn` installed (`rxfnIsRelay = false`), nothing on the bus.  `rxfn` is the user's function object
+    (the name `self.user_rxfn` stands for it in Threaded.lean) and the base constructor kept it (a blocking `rxfn(timeout)`: the legacy
+    parameterless form is wrapped by a lambda and is outside this presentation); `read_timeout` is a number. -/
+theorem transport_layer_init_shows (c : Cfg) (a : Addr) (base : Env → Env) (d : Int) (env : Env) (hW : TlWorld env)
+    (hbase : ∀ e k, k ∈ tlFrameKeys → base e k = e k) (hrx : ∀ e, base e "self.rxfn" = some (Thr.rxfnPV false)) :
+    Thr.ShowsW (wrapView (tlInitEnv base (Thr.rxfnPV false) (Thr.rxfnPV false) (pint d) env)) (TL.init c a) := by
+  have hb : ∀ k, k ∈ tlFrameKeys → tlInitEnv base (Thr.rxfnPV false) (Thr.rxfnPV false) (pint d) env k =
+      tlPre (Thr.rxfnPV false) (pint d) env k := by
+    intro k hk
+    have h1 : k ≠ "self.user_rxfn" := by rintro rfl; simp [tlFrameKeys] at hk
+    have h2 : k ≠ "#base_init.calls" := by rintro rfl; simp [tlFrameKeys] at hk
+    simp only [tlInitEnv, set_get, h1, h2, if_false]
+    exact hbase _ k hk
+  have hq := hb "self.rx_relay_queue" (by decide)
+  have he := hb "self.events" (by decide)
+  have hr : tlInitEnv base (Thr.rxfnPV false) (Thr.rxfnPV false) (pint d) env "self.rxfn" = some (Thr.rxfnPV false) := by
+    simp [tlInitEnv, set_get, hrx]
+  constructor
+  case cTimeout => exact ⟨d, by simp [wrapView, set_get, hb "self.default_read_timeout" (by decide), tlPre]⟩
+  case rxfn => simp [wrapView, set_get, hr, TL.init]
+  case cUserFn => simp [wrapView, set_get, tlInitEnv]
+  case q => simp [wrapView, set_get, hq, tlPre, qv, TL.init, Thr.encQ]
+  case e1 => simp [wrapView, set_get, he, tlPre, evFlag, eventsObj, TL.init]
+  case e2 => simp [wrapView, set_get, he, tlPre, evFlag, eventsObj, TL.init]
+  case e3 => simp [wrapView, set_get, he, tlPre, evFlag, eventsObj, TL.init]
+  case e4 => simp [wrapView, set_get, he, tlPre, evFlag, eventsObj, TL.init]
+  case e5 => simp [wrapView, set_get, he, tlPre, evFlag, eventsObj, TL.init]
+  case e6 => simp [wrapView, set_get, he, tlPre, evFlag, eventsObj, TL.init]
+  case e7 => simp [wrapView, set_get, he, tlPre, evFlag, eventsObj, TL.init]
+  case started => simp [wrapView, set_get, hb "self.started" (by decide), tlPre, TL.init]
+  case mainH => simp [wrapView, set_get, hb "self.main_thread" (by decide), tlPre, TL.init, Thr.handlePV]
+  case relayH => simp [wrapView, set_get, hb "self.relay_thread" (by decide), tlPre, TL.init, Thr.handlePV]
+  case mainA => simp [wrapView, set_get, hb "#alive.main" (by decide), tlPre, TL.init, Thr.isRunning, hW.mainA]
+  case relayA => simp [wrapView, set_get, hb "#alive.relay" (by decide), tlPre, TL.init, Thr.isRunning, hW.relayA]
+  case bus => simp [wrapView, set_get, hb "#bus" (by decide), tlPre, TL.init, Thr.encQ, hW.bus]
+  case cRelayFn => simp [wrapView, set_get, hb "self._read_relay_queue" (by decide), tlPre, hW.cRelayFn]
+  case cMainT => simp [wrapView, set_get, hb "self._main_thread_fn" (by decide), tlPre, hW.cMainT]
+  case cRelayT => simp [wrapView, set_get, hb "self._relay_thread_fn" (by decide), tlPre, hW.cRelayT]
+
+/-- with any relation `R` showing the logic layer (the base constructor's result, sections 1 / D): `Thr.Shows R _ (TL.init c a)` -/
+theorem transport_layer_init_shows_all (R : Env → State → Prop) (c : Cfg) (a : Addr) (base : Env → Env) (d : Int) (env : Env)
+    (hW : TlWorld env) (hbase : ∀ e k, k ∈ tlFrameKeys → base e k = e k) (hrx : ∀ e, base e "self.rxfn" = some (Thr.rxfnPV false))
+    (hR : R (wrapView (tlInitEnv base (Thr.rxfnPV false) (Thr.rxfnPV false) (pint d) env)) (State.init c a)) :
+    Thr.Shows R (wrapView (tlInitEnv base (Thr.rxfnPV false) (Thr.rxfnPV false) (pint d) env)) (TL.init c a) :=
+  ⟨transport_layer_init_shows c a base d env hW hbase hrx, hR⟩
+
+
+/-! ## 1. the state-initialisation region of `TransportLayerLogic.__init__` = the receive / transmit fields of `State.init`
+
+  `Src.TransportLayerLogic_init__state_init`: the 23 statements from `self.txfn = txfn` to `self.actual_rxdl = None`.
+  CALLEES (`initM arg conv`), all but the queue constructor interpreted FROM THEIR SOURCES:
+  * `self.set_address(address)` RUNS `Src.TransportLayerLogic_set_address` (LayerSend.lean: `set_address_agrees`, with its collaborators
+    `setAddrMeths arg`, `arg : AddrArg` = what kind of address object was given) in its own frame; only the attribute it writes,
+    `self.address`, is copied back (its locals `txid`, `rxid` do not leak);
+  * `self._empty_rx_buffer()` RUNS `Src.TransportLayerLogic_p_empty_rx_buffer` (LayerRx.lean: `Rx.empty_rx_buffer_src`);
+  * `Timer(timeout=0)` RUNS `Src.Timer_init` (section 4a) and yields the object as the value `[start_time, timeout_ns]`;
+  * `queue.Queue()` is the empty queue `[]` (ASSUMPTION: an unbounded FIFO, as in LayerSend.lean / LayerTxWhole.lean).
+  The region READS its three arguments `txfn`, `address`, `error_handler`, the module constant `isotp.TargetAddressType.Physical`
+  (through `set_address`) and the two class constants `self.RxState.IDLE`, `self.TxState.IDLE` (`InitArgs`); the environment is otherwise
+  ARBITRARY (an unbound argument or constant would be an `AttributeError`, as `NameError` / `AttributeError` in Python). -/
+
+/-- `Timer(timeout=0)` as a value: stopped, timeout 0 ns -/
+def stminObj : PV := .list [.py .none, .py (.int 0)]
+
+def initM (arg : AddrArg) (conv : Int → Nat → Int) : Meths where
+  fn := fun name args _ =>
+    match name, args with
+    | "queue.Queue", [] => .ok (.list [])
+    | "Timer#timeout", [v] => timerNew conv v
+    | n, _ => .error (.unsupported ("call " ++ n))
+  proc := fun name args env =>
+    match name, args with
+    | "self.set_address", [v] =>
+      (match runFn (setAddrMeths arg) (env.set "address" v) Src.TransportLayerLogic_set_address with
+       | .ok (_, e) =>
+         (match e "self.address" with
+          | some x => .ok (env.set "self.address" x)
+          | none => .error (.exc .AttributeError))
+       | .error x => .error x)
+    | "self._empty_rx_buffer", [] => envM (rxMethsOf 0 0 0 []) env Src.TransportLayerLogic_p_empty_rx_buffer
+    | n, _ => .error (.unsupported ("call " ++ n))
+
+/-- what the region reads -/
+structure InitArgs (tx eh : PV) (env : Env) : Prop where
+  txfn : env "txfn" = some tx
+  address : env "address" = some (.meth "address")
+  eh : env "error_handler" = some eh
+  phys : env "isotp.TargetAddressType.Physical" = some (tatPV .physical)
+  rxIdle : env "self.RxState.IDLE" = some (rxStPV .idle)
+  txIdle : env "self.TxState.IDLE" = some (Tx.txStPV .idle)
+
+theorem initM_queue (arg : AddrArg) (conv : Int → Nat → Int) (env : Env) :
+    (initM arg conv).fn "queue.Queue" [] env = .ok (.list []) := rfl
+
+theorem initM_timer0 (arg : AddrArg) (conv : Int → Nat → Int) (env : Env) :
+    (initM arg conv).fn "Timer#timeout" [pint 0] env = .ok stminObj := by
+  show timerNew conv (pint 0) = _
+  rw [timerNew_eq]; rfl
+
+theorem initM_empty (arg : AddrArg) (conv : Int → Nat → Int) (env : Env) :
+    (initM arg conv).proc "self._empty_rx_buffer" [] env = .ok (emptyBufEnv env) := by
+  show envM (rxMethsOf 0 0 0 []) env Src.TransportLayerLogic_p_empty_rx_buffer = _
+  rw [envM, Rx.empty_rx_buffer_src]; rfl
+
+/-- `self.set_address(address)`: `ValueError` exactly when `set_address` raises (`setAddrSpec`); otherwise only `self.address` changes -/
+theorem initM_set_address (arg : AddrArg) (conv : Int → Nat → Int) (env : Env)
+    (hp : env "isotp.TargetAddressType.Physical" = some (tatPV .physical)) :
+    (initM arg conv).proc "self.set_address" [.meth "address"] env =
+      match setAddrSpec arg with
+      | .ok _ => .ok (env.set "self.address" (.meth "address"))
+      | .error _ => .error (.exc .ValueError) := by
+  show (match runFn (setAddrMeths arg) (env.set "address" (.meth "address")) Src.TransportLayerLogic_set_address with
+       | .ok (_, e) =>
+         (match e "self.address" with
+          | some x => (Except.ok (env.set "self.address" x) : Except PErr Env)
+          | none => .error (.exc .AttributeError))
+       | .error x => .error x) = _
+  rw [set_address_agrees arg _ ⟨by simp [set_get], by simp [set_get, hp]⟩]
+  cases setAddrSpec arg with
+  | error e => rfl
+  | ok ad => simp [setAddrEnv, set_get]
+
+/-- the object after the region (`tx`, `eh` = the arguments `txfn`, `error_handler`) -/
+def initEnv (tx eh : PV) (env : Env) : Env :=
+  ((((((((((((((((((((((env.set "self.txfn" tx).set "self.address" (.meth "address")).set "self.tx_queue" (.list [])).set "self.rx_queue" (.list [])).set "self.tx_standby_msg" pnone).set "self.active_send_request" pnone).set "self.rx_state" (rxStPV .idle)).set "self.tx_state" (Tx.txStPV .idle)).set "self.last_rx_state" (rxStPV .idle)).set "self.last_tx_state" (Tx.txStPV .idle)).set "self.rx_block_counter" (pint 0)).set "self.last_seqnum" (pint 0)).set "self.rx_frame_length" (pint 0)).set "self.tx_frame_length" (pint 0)).set "self.last_flow_control_frame" pnone).set "self.tx_block_counter" (pint 0)).set "self.tx_seqnum" (pint 0)).set "self.wft_counter" (pint 0)).set "self.pending_flow_control_tx" (pbool false)).set "self.rx_buffer" (.bytes [])).set "self.timer_tx_stmin" stminObj).set "self.error_handler" eh).set "self.actual_rxdl" pnone
+
+abbrev IBk : PBlock := Src.TransportLayerLogic_init__state_init
+
+/-- **the region, for EVERY address argument and from ANY environment that binds what it reads**: `ValueError` exactly when
+    `set_address` rejects the address (not an address object / a partial symmetric address: `setAddrSpec`, i.e. the model's `mkSym`);
+    otherwise it ends normally in `initEnv` -/
+theorem state_init_agrees (arg : AddrArg) (conv : Int → Nat → Int) (tx eh : PV) (env : Env) (hA : InitArgs tx eh env) :
+    runFn (initM arg conv) env Src.TransportLayerLogic_init__state_init =
+      match setAddrSpec arg with
+      | .ok _ => .ok (pnone, initEnv tx eh env)
+      | .error _ => .error (.exc .ValueError) := by
+  have s0 : execStmt (initM arg conv) env (nth IBk 0) = .ok (.next (env.set "self.txfn" tx)) :=
+    exec_assign _ _ "self.txfn" _ tx (eval_var _ _ _ _ hA.txfn)
+  have hsa := initM_set_address arg conv (env.set "self.txfn" tx) (by simp [set_get, hA.phys])
+  have ha : evalArgs (initM arg conv) (env.set "self.txfn" tx) (.cons (.var "address") .nil) = .ok [.meth "address"] :=
+    args1 _ _ _ _ (eval_var _ _ _ _ (by simp [set_get, hA.address]))
+  cases hs : setAddrSpec arg with
+  | error e =>
+    rw [hs] at hsa
+    apply runFn_err
+    show execBlock _ env (drop IBk 0) = _
+    rw [step_next rfl s0]
+    exact step_err (b := IBk) (n := 1) rfl (exec_proc_err _ _ "self.set_address" _ _ _ (by decide) ha hsa)
+  | ok ad =>
+    rw [hs] at hsa
+    apply runFn_next
+    show execBlock _ env (drop IBk 0) = _
+    rw [step_next rfl s0]
+    rw [step_next (b := IBk) (n := 1) rfl (exec_proc _ _ _ "self.set_address" _ _ (by decide) ha hsa)]
+    rw [step_next (b := IBk) (n := 2) rfl (exec_assign _ _ "self.tx_queue" _ (.list []) (by rw [eval_call _ _ "queue.Queue" _ [] (by decide) rfl]; rfl))]
+    rw [step_next (b := IBk) (n := 3) rfl (exec_assign _ _ "self.rx_queue" _ (.list []) (by rw [eval_call _ _ "queue.Queue" _ [] (by decide) rfl]; rfl))]
+    rw [step_next (b := IBk) (n := 4) rfl (exec_assign _ _ "self.tx_standby_msg" _ pnone (by simp [eval]))]
+    rw [step_next (b := IBk) (n := 5) rfl (exec_assign _ _ "self.active_send_request" _ pnone (by simp [eval]))]
+    rw [step_next (b := IBk) (n := 6) rfl (exec_assign _ _ "self.rx_state" _ (rxStPV .idle) (eval_var _ _ _ _ (by simp [set_get, hA.rxIdle])))]
+    rw [step_next (b := IBk) (n := 7) rfl (exec_assign _ _ "self.tx_state" _ (Tx.txStPV .idle) (eval_var _ _ _ _ (by simp [set_get, hA.txIdle])))]
+    rw [step_next (b := IBk) (n := 8) rfl (exec_assign _ _ "self.last_rx_state" _ (rxStPV .idle) (eval_var _ _ _ _ (by simp [set_get])))]
+    rw [step_next (b := IBk) (n := 9) rfl (exec_assign _ _ "self.last_tx_state" _ (Tx.txStPV .idle) (eval_var _ _ _ _ (by simp [set_get])))]
+    rw [step_next (b := IBk) (n := 10) rfl (exec_assign _ _ "self.rx_block_counter" _ (pint 0) (by simp [eval]))]
+    rw [step_next (b := IBk) (n := 11) rfl (exec_assign _ _ "self.last_seqnum" _ (pint 0) (by simp [eval]))]
+    rw [step_next (b := IBk) (n := 12) rfl (exec_assign _ _ "self.rx_frame_length" _ (pint 0) (by simp [eval]))]
+    rw [step_next (b := IBk) (n := 13) rfl (exec_assign _ _ "self.tx_frame_length" _ (pint 0) (by simp [eval]))]
+    rw [step_next (b := IBk) (n := 14) rfl (exec_assign _ _ "self.last_flow_control_frame" _ pnone (by simp [eval]))]
+    rw [step_next (b := IBk) (n := 15) rfl (exec_assign _ _ "self.tx_block_counter" _ (pint 0) (by simp [eval]))]
+    rw [step_next (b := IBk) (n := 16) rfl (exec_assign _ _ "self.tx_seqnum" _ (pint 0) (by simp [eval]))]
+    rw [step_next (b := IBk) (n := 17) rfl (exec_assign _ _ "self.wft_counter" _ (pint 0) (by simp [eval]))]
+    rw [step_next (b := IBk) (n := 18) rfl (exec_assign _ _ "self.pending_flow_control_tx" _ (pbool false) (by simp [eval]))]
+    rw [step_next (b := IBk) (n := 19) rfl (exec_proc _ _ _ "self._empty_rx_buffer" _ [] (by decide) rfl (initM_empty arg conv _))]
+    rw [step_next (b := IBk) (n := 20) rfl (exec_assign _ _ "self.timer_tx_stmin" _ stminObj
+      (by rw [eval_call _ _ "Timer#timeout" _ [pint 0] (by decide) (by simp [evalArgs, eval])]; exact initM_timer0 arg conv _))]
+    rw [step_next (b := IBk) (n := 21) rfl (exec_assign _ _ "self.error_handler" _ eh
+      (eval_var _ _ _ _ (by simp [emptyBufEnv, set_get, hA.eh])))]
+    rw [step_next (b := IBk) (n := 22) rfl (exec_assign _ _ "self.actual_rxdl" .none pnone (by simp [eval]))]
+    rfl
+
+
+/-- the keys the region writes -/
+def initKeys : List String :=
+  ["self.txfn", "self.address", "self.tx_queue", "self.rx_queue", "self.tx_standby_msg", "self.active_send_request", "self.rx_state",
+   "self.tx_state", "self.last_rx_state", "self.last_tx_state", "self.rx_block_counter", "self.last_seqnum", "self.rx_frame_length",
+   "self.tx_frame_length", "self.last_flow_control_frame", "self.tx_block_counter", "self.tx_seqnum", "self.wft_counter",
+   "self.pending_flow_control_tx", "self.rx_buffer", "self.timer_tx_stmin", "self.error_handler", "self.actual_rxdl"]
+
+/-- frame: nothing else is written - in particular `self.remote_blocksize` (set to `None` BEFORE the region) keeps its value, and
+    `self.pending_flowcontrol_status` is NOT created (the model's `pendingFcStatus := none`: absent until the first request) -/
+theorem initEnv_frame (tx eh : PV) (env : Env) (k : String) (hk : k ∉ initKeys) : initEnv tx eh env k = env k := by
+  simp only [initKeys, List.mem_cons, List.not_mem_nil, or_false, not_or] at hk
+  simp [initEnv, set_get, hk]
+
+theorem initEnv_remote_blocksize (tx eh : PV) (env : Env) :
+    initEnv tx eh env "self.remote_blocksize" = env "self.remote_blocksize" := initEnv_frame tx eh env _ (by decide)
+
+theorem initEnv_no_pending_status (tx eh : PV) (env : Env) (h : env "self.pending_flowcontrol_status" = none) :
+    initEnv tx eh env "self.pending_flowcontrol_status" = none := by
+  rw [initEnv_frame tx eh env _ (by decide), h]
+
+/-- **the explicit lookups**: every receive / transmit attribute the region creates has the value of the corresponding field of
+    `State.init c a` (for every `c`, `a`: none of these fields depends on them) -/
+theorem initEnv_lookups (c : Cfg) (a : Addr) (tx eh : PV) (env : Env) :
+    initEnv tx eh env "self.rx_state" = some (rxStPV (State.init c a).rxState) ∧
+    initEnv tx eh env "self.tx_state" = some (Tx.txStPV (State.init c a).txState) ∧
+    initEnv tx eh env "self.tx_queue" = some (.list []) ∧ (State.init c a).txQueue = [] ∧
+    initEnv tx eh env "self.rx_queue" = some (.list []) ∧ (State.init c a).rxQueue = [] ∧
+    initEnv tx eh env "self.tx_standby_msg" = some (Tx.optMsgPV (State.init c a).standby) ∧
+    initEnv tx eh env "self.active_send_request" = some (Tx.objPV "req" (State.init c a).active.isSome) ∧
+    initEnv tx eh env "self.rx_block_counter" = some (pint (State.init c a).rxBlockCnt) ∧
+    initEnv tx eh env "self.last_seqnum" = some (pint (State.init c a).lastSeq) ∧
+    initEnv tx eh env "self.rx_frame_length" = some (pint (State.init c a).rxFrameLen) ∧
+    initEnv tx eh env "self.tx_frame_length" = some (pint (State.init c a).txFrameLen) ∧
+    initEnv tx eh env "self.last_flow_control_frame" = some (Tx.optFcPV (State.init c a).lastFc) ∧
+    initEnv tx eh env "self.tx_block_counter" = some (pint (State.init c a).txBlockCnt) ∧
+    initEnv tx eh env "self.tx_seqnum" = some (pint (State.init c a).txSeq) ∧
+    initEnv tx eh env "self.wft_counter" = some (pint (State.init c a).wftCnt) ∧
+    initEnv tx eh env "self.pending_flow_control_tx" = some (pbool (State.init c a).pendingFc) ∧
+    initEnv tx eh env "self.rx_buffer" = some (.bytes (State.init c a).rxBuf) ∧
+    initEnv tx eh env "self.actual_rxdl" = some (optPV (State.init c a).actualRxdl) ∧
+    initEnv tx eh env "self.timer_tx_stmin" =
+      some (.list [.py .none, .py (.int (State.init c a).timerStmin.timeout)]) ∧ (State.init c a).timerStmin.start = none ∧
+    initEnv tx eh env "self.last_rx_state" = some (rxStPV .idle) ∧ initEnv tx eh env "self.last_tx_state" = some (Tx.txStPV .idle) ∧
+    initEnv tx eh env "self.txfn" = some tx ∧ initEnv tx eh env "self.error_handler" = some eh ∧
+    initEnv tx eh env "self.address" = some (.meth "address") := by
+  simp [initEnv, set_get, State.init, Tx.optMsgPV, Tx.objPV, Tx.optFcPV, optPV, stminObj]
+
+/-! ### the presentation the step theorems expect
+
+  `process_rx_agrees` (LayerRx.lean) reads the object through `Rx.Rep` / `Rx.Consts`, `process_tx_agrees` (LayerTx.lean /
+  LayerTxWhole.lean) through `Tx.Rep` and the history key `#tx_queue`; LayerWhole.lean's `RW` is the regrouping of exactly these fields
+  (`TxOwn` + `RxOwn` + `Shared`; LayerInitWhole.lean derives `RW` from them - LayerSend.lean and LayerTxWhole.lean cannot be imported
+  together, both define `Isotp.PyAgree.reqScs`).  Those presentations are FLAT: a timer appears as `X.start_time` / `X.timeout`, the
+  two queues under `#tx_queue` / `#rx_queue`, the limiter as the value `#rl`; the constructor stores OBJECTS.  `present conv` is the
+  adapter (a function of the environment only):
+  * a queue object is its content;
+  * a timer object `[start_time, t]`: `start_time` is the first component; `timeout` is `t` when the object was built by
+    `Src.Timer_init` (integer nanoseconds, section 4a), and `conv n d` when it is LayerSend's `timerObj n d` (built by `load_params`
+    from `n/d` SECONDS - there the constructor was not interpreted): the same float conversion parameter as in section 4a;
+  * the limiter: the value of a limiter WITHOUT BURSTS whose flag is `self.rate_limiter.enabled` - what a limiter that was just
+    constructed and then enabled / disabled is (`ratelimiter_init_agrees`, `ratelimiter_fresh_then_enable`, `_disable`; `load_params`
+    does exactly that, LayerSend.lean section D). -/
+
+def tStart : Option PV → PV
+  | some (.list [a, _]) => .sc a
+  | _ => .str "not a timer"
+
+def tTimeout (conv : Int → Nat → Int) : Option PV → PV
+  | some (.list [_, .py (.int i)]) => pint i
+  | some (.list [_, .py (.float n d)]) => pint (conv n d)
+  | _ => .str "not a timer"
+
+def rlView : Option PV → PV
+  | some (.sc (.py (.bool b))) => Tx.rlPV { enabled := b }
+  | _ => .str "not a flag"
+
+def present (conv : Int → Nat → Int) (env : Env) : Env :=
+  ((((((((env.set "#tx_queue" (qv (env "self.tx_queue"))).set "#rx_queue" (qv (env "self.rx_queue"))).set
+    "self.timer_tx_stmin.start_time" (tStart (env "self.timer_tx_stmin"))).set
+    "self.timer_tx_stmin.timeout" (tTimeout conv (env "self.timer_tx_stmin"))).set
+    "self.timer_rx_fc.start_time" (tStart (env "self.timer_rx_fc"))).set
+    "self.timer_rx_fc.timeout" (tTimeout conv (env "self.timer_rx_fc"))).set
+    "self.timer_rx_cf.start_time" (tStart (env "self.timer_rx_cf"))).set
+    "self.timer_rx_cf.timeout" (tTimeout conv (env "self.timer_rx_cf"))).set
+    "#rl" (rlView (env "self.rate_limiter.enabled"))
+
+/-- the adapter is consistent: LayerSend's `timerObj n d` (the ARGUMENT `n/d` seconds of a `Timer(...)` call whose constructor was not
+    interpreted) is viewed exactly as the object `Src.Timer_init` builds from that argument (section 4a) -/
+theorem timerObj_view (conv : Int → Nat → Int) (n : Int) (d : Nat) :
+    ∃ obj, timerNew conv (.sc (.py (.float n d))) = .ok obj ∧ tStart (some obj) = tStart (some (timerObj n d)) ∧
+      tTimeout conv (some obj) = tTimeout conv (some (timerObj n d)) :=
+  ⟨.list [.py .none, .py (.int (conv n d))], by rw [timerNew_eq]; rfl, rfl, rfl⟩
+
+def presentKeys : List String :=
+  ["#tx_queue", "#rx_queue", "self.timer_tx_stmin.start_time", "self.timer_tx_stmin.timeout", "self.timer_rx_fc.start_time",
+   "self.timer_rx_fc.timeout", "self.timer_rx_cf.start_time", "self.timer_rx_cf.timeout", "#rl"]
+
+theorem present_frame (conv : Int → Nat → Int) (env : Env) (k : String) (hk : k ∉ presentKeys) : present conv env k = env k := by
+  simp only [presentKeys, List.mem_cons, List.not_mem_nil, or_false, not_or] at hk
+  simp [present, set_get, hk]
+
+/-- What exists when the region starts, for a configuration `c` (everything here is created BEFORE the region or is not an attribute):
+    the class constants; `remote_blocksize = None`; no `pending_flowcontrol_status` yet; the validated `params` object showing `c`
+    (`msFc` = `rx_flowcontrol_timeout` in ms, `br`, `win` = the two limiter parameters); empty histories (nothing has happened). -/
+structure PreInit (c : Cfg) (msFc : Int) (br win : PV) (env : Env) : Prop where
+  rxc : Rx.Consts env
+  txc : Tx.ConstRep env
+  remoteBs : env "self.remote_blocksize" = some pnone
+  pfs : env "self.pending_flowcontrol_status" = none
+  listen : env "self.params.listen_mode" = some (pbool c.listen)
+  wftmax : env "self.params.wftmax" = some (pint c.wftmax)
+  ovr : env "self.params.override_receiver_stmin" = some (Tx.nsPV c.overrideStminNs)
+  txDl : env "self.params.tx_data_length" = some (pint c.txDl)
+  txMinLen : env "self.params.tx_data_min_length" = some (optPV c.txMinLen)
+  blocksize : env "self.params.blocksize" = some (pint c.blocksize)
+  maxFrameSize : env "self.params.max_frame_size" = some (pint c.maxFrameSize)
+  cf : env "self.params.rx_consecutive_frame_timeout" = some (pint (c.tCf / 1000000 : Nat))
+  fc : env "self.params.rx_flowcontrol_timeout" = some (pint msFc)
+  br : env "self.params.rate_limit_max_bitrate" = some br
+  win : env "self.params.rate_limit_window_size" = some win
+  en : env "self.params.rate_limit_enable" = some (pbool c.rlEnable)
+  log : env "#log" = some (.list [])
+  errors : env "#errors" = some (.list [])
+  delivered : env "#delivered" = some (.list [])
+
+/-- `PreInit` survives the region (it only writes `initKeys`) -/
+theorem PreInit.loadEnv_of {c : Cfg} {msFc : Int} {br win : PV} {env : Env} (h : PreInit c msFc br win env) (tx eh : PV) :
+    LoadEnv msFc (c.tCf / 1000000 : Nat) br win c.rlEnable (initEnv tx eh env) :=
+  ⟨by rw [initEnv_frame _ _ _ _ (by decide)]; exact h.fc, by rw [initEnv_frame _ _ _ _ (by decide)]; exact h.cf,
+   by rw [initEnv_frame _ _ _ _ (by decide)]; exact h.br, by rw [initEnv_frame _ _ _ _ (by decide)]; exact h.win,
+   by rw [initEnv_frame _ _ _ _ (by decide)]; exact h.en⟩
+
+/-- the object after the region and `load_params` -/
+def ctorEnv (c : Cfg) (msFc : Int) (tx eh : PV) (env : Env) : Env :=
+  loadEnv msFc (c.tCf / 1000000 : Nat) c.rlEnable (initEnv tx eh env)
+
+section shows
+variable (c : Cfg) (a : Addr) (conv : Int → Nat → Int) (msFc : Int) (br win tx eh : PV) (env : Env)
+
+/-- the value of a key neither `load_params` nor the adapter touches -/
+theorem ctor_other (k : String) (h1 : k ∉ presentKeys)
+    (h2 : k ∉ ["self.timer_rx_fc", "self.timer_rx_cf", "self.rate_limiter", "self.rate_limiter.enabled"]) :
+    present conv (ctorEnv c msFc tx eh env) k = initEnv tx eh env k := by
+  rw [present_frame conv _ k h1]
+  simp only [List.mem_cons, List.not_mem_nil, or_false, not_or] at h2
+  simp [ctorEnv, loadEnv, set_get, h2]
+
+/-- frame of the whole construction + view: every other key (`#ops`, `logging.DEBUG`, the parameters of a later `process` call, ...)
+    is what it was before the constructor ran - the remaining hypotheses of LayerInitWhole's `init_RW` are about the starting
+    environment -/
+theorem ctor_other' (k : String) (h1 : k ∉ presentKeys)
+    (h2 : k ∉ ["self.timer_rx_fc", "self.timer_rx_cf", "self.rate_limiter", "self.rate_limiter.enabled"]) (h3 : k ∉ initKeys) :
+    present conv (ctorEnv c msFc tx eh env) k = env k := by
+  rw [ctor_other c conv msFc tx eh env k h1 h2, initEnv_frame tx eh env k h3]
+
+/-- **transmit side: `Tx.Rep`** -/
+theorem ctor_txRep (hP : PreInit c msFc br win env) (hfc : conv msFc 1000 = (c.tFc : Int))
+    (hcf : conv (c.tCf / 1000000 : Nat) 1000 = (c.tCf : Int)) :
+    Tx.Rep (present conv (ctorEnv c msFc tx eh env)) (State.init c a) := by
+  have L := initEnv_lookups c a tx eh env
+  obtain ⟨l1, l2, l3, -, l4, -, l5, l6, l7, l8, l9, l10, l11, l12, l13, l14, l15, l16, l17, l18, -, -⟩ := L
+  constructor
+  case txState => rw [ctor_other c conv msFc tx eh env _ (by decide) (by decide)]; exact l2
+  case txFrameLen => rw [ctor_other c conv msFc tx eh env _ (by decide) (by decide)]; exact l10
+  case txSeq => rw [ctor_other c conv msFc tx eh env _ (by decide) (by decide)]; exact l13
+  case txBlockCnt => rw [ctor_other c conv msFc tx eh env _ (by decide) (by decide)]; exact l12
+  case remoteBs => rw [ctor_other' c conv msFc tx eh env _ (by decide) (by decide) (by decide)]; exact hP.remoteBs
+  case wftCnt => rw [ctor_other c conv msFc tx eh env _ (by decide) (by decide)]; exact l14
+  case pendingFc => rw [ctor_other c conv msFc tx eh env _ (by decide) (by decide)]; exact l15
+  case listen => rw [ctor_other' c conv msFc tx eh env _ (by decide) (by decide) (by decide)]; exact hP.listen
+  case wftmax => rw [ctor_other' c conv msFc tx eh env _ (by decide) (by decide) (by decide)]; exact hP.wftmax
+  case ovr => rw [ctor_other' c conv msFc tx eh env _ (by decide) (by decide) (by decide)]; exact hP.ovr
+  case txDl => rw [ctor_other' c conv msFc tx eh env _ (by decide) (by decide) (by decide)]; exact hP.txDl
+  case txMinLen => rw [ctor_other' c conv msFc tx eh env _ (by decide) (by decide) (by decide)]; exact hP.txMinLen
+  case standby => rw [ctor_other c conv msFc tx eh env _ (by decide) (by decide)]; exact l5
+  case active => rw [ctor_other c conv msFc tx eh env _ (by decide) (by decide)]; exact l6
+  case lastFc => rw [ctor_other c conv msFc tx eh env _ (by decide) (by decide)]; exact l11
+  case fcStart => simp [present, ctorEnv, loadEnv, set_get, tStart, timerObj, State.init, optPV]
+  case fcTo => simp [present, ctorEnv, loadEnv, set_get, tTimeout, timerObj, State.init, hfc]
+  case stStart => simp [present, ctorEnv, loadEnv, set_get, tStart, l18, State.init, optPV]
+  case stTo => simp [present, ctorEnv, loadEnv, set_get, tTimeout, l18, State.init]
+  case cfStart => simp [present, ctorEnv, loadEnv, set_get, tStart, timerObj, State.init, optPV]
+  case cfTo =>
+    simp [present, ctorEnv, loadEnv, set_get, tTimeout, timerObj, State.init]
+    simpa using hcf
+  case log => rw [ctor_other' c conv msFc tx eh env _ (by decide) (by decide) (by decide)]; exact hP.log
+  case rl => simp [present, ctorEnv, loadEnv, set_get, rlView, State.init]
+  case pfs => rw [ctor_other' c conv msFc tx eh env _ (by decide) (by decide) (by decide)]; exact hP.pfs
+  case req => intro r hr; simp [State.init] at hr
+  case consts =>
+    obtain ⟨c1, c2, c3, c4, c5, c6, c7, c8⟩ := hP.txc
+    exact ⟨by rw [ctor_other' c conv msFc tx eh env _ (by decide) (by decide) (by decide)]; exact c1,
+      by rw [ctor_other' c conv msFc tx eh env _ (by decide) (by decide) (by decide)]; exact c2,
+      by rw [ctor_other' c conv msFc tx eh env _ (by decide) (by decide) (by decide)]; exact c3,
+      by rw [ctor_other' c conv msFc tx eh env _ (by decide) (by decide) (by decide)]; exact c4,
+      by rw [ctor_other' c conv msFc tx eh env _ (by decide) (by decide) (by decide)]; exact c5,
+      by rw [ctor_other' c conv msFc tx eh env _ (by decide) (by decide) (by decide)]; exact c6,
+      by rw [ctor_other' c conv msFc tx eh env _ (by decide) (by decide) (by decide)]; exact c7,
+      by rw [ctor_other' c conv msFc tx eh env _ (by decide) (by decide) (by decide)]; exact c8⟩
+
+
+/-- **receive side: `Rx.Rep`** (the mailbox is empty: `None` is `None` in both presentations of the mailbox) -/
+theorem ctor_rxRep (hP : PreInit c msFc br win env) (hcf : conv (c.tCf / 1000000 : Nat) 1000 = (c.tCf : Int)) :
+    Rx.Rep (State.init c a) (present conv (ctorEnv c msFc tx eh env)) := by
+  have L := initEnv_lookups c a tx eh env
+  obtain ⟨l1, l2, l3, -, l4, -, l5, l6, l7, l8, l9, l10, l11, l12, l13, l14, l15, l16, l17, l18, -, -⟩ := L
+  constructor
+  case rxState => rw [ctor_other c conv msFc tx eh env _ (by decide) (by decide)]; exact l1
+  case rxFrameLen => rw [ctor_other c conv msFc tx eh env _ (by decide) (by decide)]; exact l9
+  case lastSeq => rw [ctor_other c conv msFc tx eh env _ (by decide) (by decide)]; exact l8
+  case rxBlockCnt => rw [ctor_other c conv msFc tx eh env _ (by decide) (by decide)]; exact l7
+  case actualRxdl => rw [ctor_other c conv msFc tx eh env _ (by decide) (by decide)]; exact l17
+  case rxBuf => rw [ctor_other c conv msFc tx eh env _ (by decide) (by decide)]; exact l16
+  case pendingFc => rw [ctor_other c conv msFc tx eh env _ (by decide) (by decide)]; exact l15
+  case pfs => rw [ctor_other' c conv msFc tx eh env _ (by decide) (by decide) (by decide)]; exact hP.pfs
+  case tStart => simp [present, ctorEnv, loadEnv, set_get, tStart, timerObj, State.init, optPV]
+  case tTimeout =>
+    simp [present, ctorEnv, loadEnv, set_get, tTimeout, timerObj, State.init]
+    simpa using hcf
+  case blocksize => rw [ctor_other' c conv msFc tx eh env _ (by decide) (by decide) (by decide)]; exact hP.blocksize
+  case maxFrameSize => rw [ctor_other' c conv msFc tx eh env _ (by decide) (by decide) (by decide)]; exact hP.maxFrameSize
+  case cfTimeout => rw [ctor_other' c conv msFc tx eh env _ (by decide) (by decide) (by decide)]; exact hP.cf
+  case errors => rw [ctor_other' c conv msFc tx eh env _ (by decide) (by decide) (by decide)]; exact hP.errors
+  case delivered => rw [ctor_other' c conv msFc tx eh env _ (by decide) (by decide) (by decide)]; exact hP.delivered
+  case rxQueue => simp [present, ctorEnv, loadEnv, set_get, l4, qv, State.init, encodePayloads]
+  case mb => rw [ctor_other c conv msFc tx eh env _ (by decide) (by decide)]; exact l11
+  case fcS => intro f hf; simp [State.init] at hf
+  case fcB => intro f hf; simp [State.init] at hf
+  case fcM => intro f hf; simp [State.init] at hf
+
+/-- the class constants are still there -/
+theorem ctor_rxConsts (hP : PreInit c msFc br win env) : Rx.Consts (present conv (ctorEnv c msFc tx eh env)) := by
+  obtain ⟨c1, c2, c3, c4, c5, c6, c7, c8⟩ := hP.rxc
+  exact ⟨by rw [ctor_other' c conv msFc tx eh env _ (by decide) (by decide) (by decide)]; exact c1,
+    by rw [ctor_other' c conv msFc tx eh env _ (by decide) (by decide) (by decide)]; exact c2,
+    by rw [ctor_other' c conv msFc tx eh env _ (by decide) (by decide) (by decide)]; exact c3,
+    by rw [ctor_other' c conv msFc tx eh env _ (by decide) (by decide) (by decide)]; exact c4,
+    by rw [ctor_other' c conv msFc tx eh env _ (by decide) (by decide) (by decide)]; exact c5,
+    by rw [ctor_other' c conv msFc tx eh env _ (by decide) (by decide) (by decide)]; exact c6,
+    by rw [ctor_other' c conv msFc tx eh env _ (by decide) (by decide) (by decide)]; exact c7,
+    by rw [ctor_other' c conv msFc tx eh env _ (by decide) (by decide) (by decide)]; exact c8⟩
+
+/-- the transmit queue (the key `process_tx_agrees` / `Rep2` reads): empty -/
+theorem ctor_txQueue : present conv (ctorEnv c msFc tx eh env) "#tx_queue" = some (.list []) ∧ (State.init c a).txQueue = [] := by
+  have L := initEnv_lookups c a tx eh env
+  refine ⟨?_, rfl⟩
+  simp [present, ctorEnv, loadEnv, set_get, L.2.2.1, qv]
+
+end shows
+
+
+/-- **COROLLARY: the constructor presents `State.init c a`.**  For every configuration `c` and address `a` (= what `set_address` accepts
+    for the given address object: `setAddrSpec arg = .ok a`), from any environment `env` that binds what the two pieces read
+    (`InitArgs`, `PreInit`): running the state-initialisation region (`state_init_agrees`) and then `load_params`
+    (`load_params_agrees`, LayerSend.lean, with `validate()` passing - it raised `ValueError` otherwise) ends normally in `ctorEnv`,
+    whose flat view `present conv` satisfies the hypotheses of the step theorems for the model state `State.init c a`:
+    `Tx.Rep` (LayerTx.lean), `Rx.Rep` and `Rx.Consts` (LayerRx.lean), an empty `#tx_queue`; and `RxBufOk (State.init c a)`
+    (the one hypothesis of `process_rx_agrees`).
+    `hfc`, `hcf`: the float conversion `int(ms / 1000 * 1e9)` of the two receive timeouts gives the model's `cfg.tFc`, `cfg.tCf`
+    (DESIGN 3.1: how the harness computes the `Cfg` it hands to the model; float arithmetic is outside the subset). -/
+theorem init_presents_State_init (c : Cfg) (a : Addr) (arg : AddrArg) (conv : Int → Nat → Int) (msFc : Int) (br win tx eh : PV)
+    (env : Env) (hA : InitArgs tx eh env) (hP : PreInit c msFc br win env) (ha : setAddrSpec arg = .ok a)
+    (hfc : conv msFc 1000 = (c.tFc : Int)) (hcf : conv (c.tCf / 1000000 : Nat) 1000 = (c.tCf : Int)) :
+    runFn (initM arg conv) env Src.TransportLayerLogic_init__state_init = .ok (pnone, initEnv tx eh env) ∧
+    runFn (loadMeths true br win) (initEnv tx eh env) Src.TransportLayerLogic_load_params =
+      .ok (pnone, ctorEnv c msFc tx eh env) ∧
+    Tx.Rep (present conv (ctorEnv c msFc tx eh env)) (State.init c a) ∧
+    Rx.Rep (State.init c a) (present conv (ctorEnv c msFc tx eh env)) ∧
+    Rx.Consts (present conv (ctorEnv c msFc tx eh env)) ∧
+    present conv (ctorEnv c msFc tx eh env) "#tx_queue" = some (.list []) ∧ (State.init c a).txQueue = [] ∧
+    RxBufOk (State.init c a) ∧
+    present conv (ctorEnv c msFc tx eh env) "self.address" = some (.meth "address") := by
+  refine ⟨?_, ?_, ctor_txRep c a conv msFc br win tx eh env hP hfc hcf, ctor_rxRep c a conv msFc br win tx eh env hP hcf,
+    ctor_rxConsts c conv msFc br win tx eh env hP, (ctor_txQueue c a conv msFc tx eh env).1, rfl, ?_, ?_⟩
+  · rw [state_init_agrees arg conv tx eh env hA, ha]
+  · rw [load_params_agrees true msFc _ br win c.rlEnable _ (hP.loadEnv_of tx eh)]; rfl
+  · intro hw; simp [State.init] at hw
+  · rw [ctor_other c conv msFc tx eh env _ (by decide) (by decide)]
+    exact (initEnv_lookups c a tx eh env).2.2.2.2.2.2.2.2.2.2.2.2.2.2.2.2.2.2.2.2.2.2.2.2.2
+
+/-- a rejected address: the constructor raises before any state attribute exists (`State.init` takes an accepted `Addr`) -/
+theorem state_init_rejects (arg : AddrArg) (conv : Int → Nat → Int) (tx eh : PV) (env : Env) (hA : InitArgs tx eh env)
+    (e : PyExc) (ha : setAddrSpec arg = .error e) :
+    runFn (initM arg conv) env Src.TransportLayerLogic_init__state_init = .error (.exc .ValueError) := by
+  rw [state_init_agrees arg conv tx eh env hA, ha]
+
+
+/-! ## 5. non-vacuity: the hypotheses are satisfiable, and concrete runs -/
+
+/-- the float conversion, as exact truncation (an instance of the parameter) -/
+def convExact (n : Int) (d : Nat) : Int := n * 1000000000 / d
+
+/-- an environment for the default configuration: the arguments, the class constants as dumped (`constEnv`), the validated default
+    parameters, `remote_blocksize = None`, empty histories -/
+def exEnv : Env := fun k =>
+  match k with
+  | "txfn" => some (.meth "txfn")
+  | "address" => some (.meth "address")
+  | "error_handler" => some pnone
+  | "isotp.TargetAddressType.Physical" => some (tatPV .physical)
+  | "self.remote_blocksize" => some pnone
+  | "self.params.listen_mode" => some (pbool false)
+  | "self.params.wftmax" => some (pint 0)
+  | "self.params.override_receiver_stmin" => some pnone
+  | "self.params.tx_data_length" => some (pint 8)
+  | "self.params.tx_data_min_length" => some pnone
+  | "self.params.blocksize" => some (pint 8)
+  | "self.params.max_frame_size" => some (pint 4095)
+  | "self.params.rx_consecutive_frame_timeout" => some (pint 1000)
+  | "self.params.rx_flowcontrol_timeout" => some (pint 1000)
+  | "self.params.rate_limit_max_bitrate" => some (pint 100000000)
+  | "self.params.rate_limit_window_size" => some (.sc (.py (.float 1 5)))
+  | "self.params.rate_limit_enable" => some (pbool false)
+  | "#log" => some (.list [])
+  | "#errors" => some (.list [])
+  | "#delivered" => some (.list [])
+  | _ => constEnv k
+
+theorem exEnv_args : InitArgs (.meth "txfn") pnone exEnv := ⟨rfl, rfl, rfl, rfl, rfl, rfl⟩
+
+theorem exEnv_pre : PreInit {} 1000 (pint 100000000) (.sc (.py (.float 1 5))) exEnv :=
+  { rxc := ⟨rfl, rfl, rfl, rfl, rfl, rfl, rfl, rfl⟩, txc := ⟨rfl, rfl, rfl, rfl, rfl, rfl, rfl, rfl⟩, remoteBs := rfl, pfs := rfl,
+    listen := rfl, wftmax := rfl, ovr := rfl, txDl := rfl, txMinLen := rfl, blocksize := rfl, maxFrameSize := rfl, cf := rfl, fc := rfl,
+    br := rfl, win := rfl, en := rfl, log := rfl, errors := rfl, delivered := rfl }
+
+/-- `state_init_agrees` / `init_presents_State_init` on the default configuration, for EVERY asymmetric address -/
+example (a : Addr) :
+    runFn (initM (.asym a) convExact) exEnv Src.TransportLayerLogic_init__state_init =
+      .ok (pnone, initEnv (.meth "txfn") pnone exEnv) ∧
+    Tx.Rep (present convExact (ctorEnv {} 1000 (.meth "txfn") pnone exEnv)) (State.init {} a) ∧
+    Rx.Rep (State.init {} a) (present convExact (ctorEnv {} 1000 (.meth "txfn") pnone exEnv)) :=
+  have h := init_presents_State_init {} a (.asym a) convExact 1000 _ _ _ _ exEnv exEnv_args exEnv_pre rfl rfl rfl
+  ⟨h.1, h.2.2.1, h.2.2.2.1⟩
+
+/-- a partial symmetric address is rejected -/
+example (h : Half) (hp : h.txOnly = true) :
+    runFn (initM (.sym h) convExact) exEnv Src.TransportLayerLogic_init__state_init = .error (.exc .ValueError) :=
+  state_init_rejects (.sym h) convExact _ _ exEnv exEnv_args .ValueError (by simp [setAddrSpec, mkSym, hp])
+
+/-- the generator objects of the examples: object 7 is a generator that will yield `[1, 2, 3]` -/
+def exYields (t : Nat) : Option Bytes := if t = 7 then some [1, 2, 3] else none
+
+example : runFn (sriM exYields 7) (envOf [("data", .bytes [1, 2, 3]), ("target_address_type", tatPV .functional)])
+      Src.TransportLayerLogic_SendRequest_init =
+    .ok (pnone, sriBytesEnv 7 [1, 2, 3] (tatPV .functional)
+      (envOf [("data", .bytes [1, 2, 3]), ("target_address_type", tatPV .functional)])) :=
+  send_request_init_bytes exYields 7 _ [1, 2, 3] _ rfl rfl rfl
+
+example : runFn (sriM exYields 7) (envOf [("data", .list [.py (.other 7), .py (.int 3)]), ("target_address_type", tatPV .physical)])
+      Src.TransportLayerLogic_SendRequest_init =
+    .ok (pnone, sriTupleEnv (.py (.other 7)) (.py (.int 3)) (tatPV .physical)
+      (envOf [("data", .list [.py (.other 7), .py (.int 3)]), ("target_address_type", tatPV .physical)])) :=
+  by rw [send_request_init_tuple exYields 7 _ _ _ rfl rfl]; rfl
+
+/-- a 3-tuple, a pair whose first item is not a generator, a negative size, an `int`: `ValueError` -/
+example : runFn (sriM exYields 7) (envOf [("data", .list [.py (.other 7), .py (.int 3), .py (.int 0)]), ("target_address_type", pnone)])
+      Src.TransportLayerLogic_SendRequest_init = .error (.exc .ValueError) :=
+  by rw [send_request_init_tuple exYields 7 _ _ _ rfl rfl]; rfl
+example : runFn (sriM exYields 7) (envOf [("data", .list [.py (.other 8), .py (.int 3)]), ("target_address_type", pnone)])
+      Src.TransportLayerLogic_SendRequest_init = .error (.exc .ValueError) :=
+  by rw [send_request_init_tuple exYields 7 _ _ _ rfl rfl]; rfl
+example : runFn (sriM exYields 7) (envOf [("data", .list [.py (.other 7), .py (.int (-1))]), ("target_address_type", pnone)])
+      Src.TransportLayerLogic_SendRequest_init = .error (.exc .ValueError) :=
+  by rw [send_request_init_tuple exYields 7 _ _ _ rfl rfl]; rfl
+example : runFn (sriM exYields 7) (envOf [("data", pint 5), ("target_address_type", pnone)])
+      Src.TransportLayerLogic_SendRequest_init = .error (.exc .ValueError) :=
+  send_request_init_other exYields 7 _ _ rfl rfl rfl
+
+/-- the model request of the `bytes` example -/
+example (s : State) :
+    reqOf exYields 4 false (tatOf s { id := 4, size := 3, src := [1, 2, 3] })
+      (sriBytesEnv 7 [1, 2, 3] (tatPV (tatOf s { id := 4, size := 3, src := [1, 2, 3] })) (envOf [])) =
+      some { id := 4, size := 3, src := [1, 2, 3], consumed := 0, depletedFlag := false,
+             tat := tatOf s { id := 4, size := 3, src := [1, 2, 3] }, instr := false } :=
+  send_request_init_bytes_is_newReq exYields 7 s { id := 4, size := 3, src := [1, 2, 3] } (envOf []) rfl rfl
+
+/-- the threaded wrapper: the arguments, a world without threads, a base constructor that keeps the user's `rxfn` -/
+def exTlEnv : Env :=
+  envOf [("self", .meth "self"), ("rxfn", Thr.rxfnPV false), ("txfn", .meth "txfn"), ("address", .meth "address"),
+    ("error_handler", pnone), ("params", pnone), ("read_timeout", pint 0), ("#alive.main", pbool false), ("#alive.relay", pbool false),
+    ("#bus", .list []), ("self._read_relay_queue", Thr.rxfnPV true), ("self._main_thread_fn", .meth "self._main_thread_fn"),
+    ("self._relay_thread_fn", .meth "self._relay_thread_fn")]
+
+def exBase (e : Env) : Env := e.set "self.rxfn" (Thr.rxfnPV false)
+
+theorem exTl_args : TlArgs (.meth "self") (Thr.rxfnPV false) (.meth "txfn") (.meth "address") pnone pnone (pint 0) exTlEnv :=
+  ⟨rfl, rfl, rfl, rfl, rfl, rfl, rfl⟩
+theorem exTl_world : TlWorld exTlEnv := ⟨rfl, rfl, rfl, rfl, rfl, rfl⟩
+theorem exBase_frame : ∀ e k, k ∈ tlFrameKeys → exBase e k = e k := by
+  intro e k hk
+  have : k ≠ "self.rxfn" := by rintro rfl; simp [tlFrameKeys] at hk
+  simp [exBase, set_get, this]
+
+example : runFn (tlInitM (baseArgs (.meth "self") (Thr.rxfnPV false) (.meth "txfn") (.meth "address") pnone pnone) exBase) exTlEnv
+      Src.TransportLayer_init = .ok (pnone, tlInitEnv exBase (Thr.rxfnPV false) (Thr.rxfnPV false) (pint 0) exTlEnv) := by
+  rw [transport_layer_init_agrees _ exBase _ _ (Thr.rxfnPV false) _ _ _ _ _ exTlEnv exTl_args (fun e => by simp [exBase, set_get]),
+    if_pos rfl]
+
+/-- a base constructor expecting the arguments in another order is NOT what the source calls -/
+example : runFn (tlInitM (baseArgs (.meth "self") (.meth "txfn") (Thr.rxfnPV false) (.meth "address") pnone pnone) exBase) exTlEnv
+      Src.TransportLayer_init = .error (.unsupported "base constructor called with other arguments") := by
+  rw [transport_layer_init_agrees _ exBase _ _ (Thr.rxfnPV false) _ _ _ _ _ exTlEnv exTl_args (fun e => by simp [exBase, set_get]),
+    if_neg (by decide)]
+
+example (c : Cfg) (a : Addr) :
+    Thr.ShowsW (wrapView (tlInitEnv exBase (Thr.rxfnPV false) (Thr.rxfnPV false) (pint 0) exTlEnv)) (TL.init c a) :=
+  transport_layer_init_shows c a exBase 0 exTlEnv exTl_world exBase_frame (fun e => by simp [exBase, set_get])
+
+example : callsOf exTlEnv = 0 ∧ callsOf (tlInitEnv exBase (Thr.rxfnPV false) (Thr.rxfnPV false) (pint 0) exTlEnv) = 1 :=
+  ⟨rfl, (transport_layer_init_calls_once exBase _ _ _ exTlEnv).2⟩
+
+/-- the limiter: 1 Mbit/s over 1 s can be enabled, so the constructor enables it; 0 bit/s cannot -/
+example : runFn rlInitM (envOf [("mean_bitrate", pint 1000000), ("window_size_sec", pint 1)]) Src.RateLimiter_init =
+    .ok (pnone, rlInitEnv 1000000 1 (envOf [("mean_bitrate", pint 1000000), ("window_size_sec", pint 1)])) :=
+  (ratelimiter_init_agrees _ 1000000 1 rfl rfl).1
+example : Has (rlInitEnv 0 1 (envOf [])) (limAttrs ({} : Limiter) 0) := ratelimiter_init_default (envOf []) 0 1 (by decide)
+
+/-- the timers: `Timer(0)`, `Timer(2)` (seconds), `Timer(1000/1000 s)` -/
+example : runFn (timerInitM convExact) (envOf [("timeout", pint 0)]) Src.Timer_init =
+    .ok (pnone, timerInitEnv 0 (envOf [("timeout", pint 0)])) := (timer_init_zero convExact _ rfl).1
+example : runFn (timerInitM convExact) (envOf [("timeout", pint 2)]) Src.Timer_init =
+    .ok (pnone, timerInitEnv 2000000000 (envOf [("timeout", pint 2)])) := by
+  rw [timer_init_agrees convExact _ (pint 2) rfl]; rfl
+example : runFn (timerInitM convExact) (envOf [("timeout", .sc (.py (.float 1000 1000)))]) Src.Timer_init =
+    .ok (pnone, timerInitEnv 1000000000 (envOf [("timeout", .sc (.py (.float 1000 1000)))])) := by
+  rw [timer_init_agrees convExact _ _ rfl]; rfl
+example : runFn (timerInitM convExact) (envOf [("timeout", pnone)]) Src.Timer_init = .error (.exc .TypeError) := by
+  rw [timer_init_agrees convExact _ _ rfl]; rfl
+
 end Isotp.PyAgree.Init
+
+#print axioms Isotp.PyAgree.Init.timer_set_timeout_agrees
+#print axioms Isotp.PyAgree.Init.timer_init_agrees
+#print axioms Isotp.PyAgree.Init.timer_init_model
+#print axioms Isotp.PyAgree.Init.timer_init_zero
+#print axioms Isotp.PyAgree.Init.timerNew_eq
+#print axioms Isotp.PyAgree.Init.can_be_enabled_run
+#print axioms Isotp.PyAgree.Init.enable_run
+#print axioms Isotp.PyAgree.Init.ratelimiter_init_agrees
+#print axioms Isotp.PyAgree.Init.ratelimiter_init_default
+#print axioms Isotp.PyAgree.Init.ratelimiter_fresh_then_disable
+#print axioms Isotp.PyAgree.Init.ratelimiter_fresh_then_enable
+#print axioms Isotp.PyAgree.Init.fbgNew_eq
+#print axioms Isotp.PyAgree.Init.send_request_init_tuple
+#print axioms Isotp.PyAgree.Init.send_request_init_bytes
+#print axioms Isotp.PyAgree.Init.send_request_init_other
+#print axioms Isotp.PyAgree.Init.send_request_init_agrees
+#print axioms Isotp.PyAgree.Init.send_request_init_bytes_is_newReq
+#print axioms Isotp.PyAgree.Init.send_request_init_tuple_is_newReq
+#print axioms Isotp.PyAgree.Init.send_request_init_tuple_accepts
+#print axioms Isotp.PyAgree.Init.transport_layer_init_agrees
+#print axioms Isotp.PyAgree.Init.transport_layer_init_calls_once
+#print axioms Isotp.PyAgree.Init.transport_layer_init_shows
+#print axioms Isotp.PyAgree.Init.transport_layer_init_shows_all
+#print axioms Isotp.PyAgree.Init.state_init_agrees
+#print axioms Isotp.PyAgree.Init.state_init_rejects
+#print axioms Isotp.PyAgree.Init.initEnv_frame
+#print axioms Isotp.PyAgree.Init.initEnv_no_pending_status
+#print axioms Isotp.PyAgree.Init.initEnv_lookups
+#print axioms Isotp.PyAgree.Init.timerObj_view
+#print axioms Isotp.PyAgree.Init.ctor_other'
+#print axioms Isotp.PyAgree.Init.ctor_txRep
+#print axioms Isotp.PyAgree.Init.ctor_rxRep
+#print axioms Isotp.PyAgree.Init.ctor_rxConsts
+#print axioms Isotp.PyAgree.Init.ctor_txQueue
+#print axioms Isotp.PyAgree.Init.init_presents_State_init
